@@ -1,898 +1,782 @@
-(* Outstation/SessionLemmas_c12.v — helper lemmas about the outstation session model used by
-   SessionC12Proofs.v (properties C12 and the session half of C07): control-octet arithmetic,
-   frame ("what a helper leaves alone") lemmas, output-shape lemmas of the request handlers. *)
-From Dnp3V Require Import Outstation.Session.
+(* Outstation/SessionC12Proofs.v — property C12 (outstation replies are well-formed, correlated,
+   bounded, and report rejections) and the session half of C07 (foreign masters and broadcasts),
+   proved over the session model Outstation/Session.v for all configurations, all reachable
+   states, all events and all answers of the environment. *)
+From Dnp3V Require Import Outstation.Session Outstation.SessionLemmas_c12.
 Import ListNotations.
 Open Scope N_scope.
 
-(* ---------- control octet and IIN arithmetic ------------------------------------------------ *)
+(* ---------- reachable states ---------------------------------------------------------------- *)
 
-Lemma testbit_div (c : N) (n : N) : N.testbit c n = ((c / 2 ^ n) mod 2 =? 1).
-Proof. apply N.testbit_eqb. Qed.
+(* states reached from start-up by any history whose per-step answers satisfy AP *)
+Inductive Reach (AP : list answer -> Prop) (cfg : ocfg) : ostate -> Prop :=
+| Reach_start : forall sel op iin a0, AP a0 -> Reach AP cfg (fst (ostart cfg sel op iin a0))
+| Reach_step : forall s ev ans, Reach AP cfg s -> AP ans -> Reach AP cfg (fst (ostep cfg s ev ans)).
 
-Lemma b2n_cases (b : bool) (v : N) : b2n b v = 0 \/ b2n b v = v.
-Proof. destruct b; cbn [b2n]; auto. Qed.
+Definition any_answers (_ : list answer) : Prop := True.
 
-Lemma ctl_byte_seq fir fin con uns seq : ctl_seq (ctl_byte fir fin con uns seq) = seq mod 16.
+Lemma Reach_weaken (AP : list answer -> Prop) cfg s : Reach AP cfg s -> Reach any_answers cfg s.
+Proof. induction 1; constructor; auto; exact I. Qed.
+
+(* ---------- 1/6. shape and size of everything transmitted ---------------------------------- *)
+
+Section Sized.
+  Variable cfg : ocfg.
+  Variable szok : nat -> Prop.
+  Hypothesis szok_small : forall n, (n <= 10)%nat -> szok n.
+  Hypothesis szok_tx : forall n, (n <= o_sol_tx cfg)%nat -> szok n.
+
+  Definition aok (a : answer) : Prop :=
+    match a with AWrite _ _ b => szok (4 + length b)%nat | _ => True end.
+  Definition ans_ok (s : ostate) : Prop := Forall aok (s_answers s).
+
+  Definition sol_resp (r : response) : Prop :=
+    r_fn r = fn_response /\ ctl_uns (r_ctl r) = false /\ szok (r_size r).
+  Definition unsol_resp (r : response) : Prop :=
+    r_fn r = fn_unsol_response /\ exists q, r_ctl r = ctl_byte true true true true q.
+
+  Definition tx_ok (dest : N) (b : list N) : Prop :=
+    exists r buf, b = response_bytes r buf /\ (sol_resp r \/ (unsol_resp r /\ dest = o_master cfg)).
+  Definition obs_ok (o : oobs) : Prop := match o with OTx d b => tx_ok d b | _ => True end.
+
+  Definition Inv (s : ostate) : Prop :=
+    (forall l r, s_last s = Some l -> lr_response l = Some r -> sol_resp r) /\
+    match s_control s with CUnsolWait resp _ _ _ => unsol_resp resp | _ => True end.
+
+  (* invariant plus the condition on the answers not yet consumed in the current step *)
+  Definition IA (s : ostate) : Prop := Inv s /\ ans_ok s.
+
+  Lemma ans_ok_suffix s s' : ans_suffix s s' -> ans_ok s -> ans_ok s'.
+  Proof.
+    unfold ans_ok. intros [pre H] Hok. rewrite H in Hok. apply Forall_app in Hok. tauto.
+  Qed.
+
+  Lemma ans_ok_in s c e b : ans_ok s -> In (AWrite c e b) (s_answers s) \/ b = [] -> szok (4 + length b)%nat.
+  Proof.
+    intros Hok [Hin|Hb].
+    - unfold ans_ok in Hok. rewrite Forall_forall in Hok. apply (Hok _ Hin).
+    - subst b. apply szok_small. cbn. lia.
+  Qed.
+
+  Lemma no_tx_obs_ok o : Forall no_tx o -> Forall obs_ok o.
+  Proof. apply Forall_impl. intros [] H; try exact I. destruct H. Qed.
+
+  Lemma Inv_sc s s' : same_core s s' -> Inv s -> Inv s'.
+  Proof. intros (_ & Hc & Hl & _) [I1 I2]. unfold Inv. rewrite Hc, Hl. split; assumption. Qed.
+
+  Lemma IA_sc s s' : same_core s s' -> IA s -> IA s'.
+  Proof. intros H [I1 I2]. split; [eapply Inv_sc; eassumption|]. eapply ans_ok_suffix; [apply sc_ans; exact H|exact I2]. Qed.
+
+  Lemma sol_sent r r' : sent_of r r' -> sol_resp r -> sol_resp r'.
+  Proof.
+    intros Hs (A & B & C). pose proof (sent_of_uns _ _ Hs) as Hu. destruct Hs as (S1 & S2 & _).
+    unfold sol_resp. rewrite S1, S2, Hu. auto.
+  Qed.
+
+  Lemma sol_fresh seq r : fresh_resp seq r -> szok (r_size r) -> sol_resp r.
+  Proof. intros [A B] C. unfold sol_resp. rewrite A, ctl_byte_uns. auto. Qed.
+
+  Lemma sol_empty seq v : sol_resp (empty_solicited seq v).
+  Proof. apply sol_fresh with seq; [apply fresh_empty|]. apply szok_small. cbn. lia. Qed.
+
+  Lemma sol_non_read s fn seq fid bytes hdrs s1 r o :
+    handle_non_read cfg s fn seq fid bytes hdrs = (s1, Some r, o) -> sol_resp r.
+  Proof.
+    intros H. pose proof (handle_non_read_size _ _ _ _ _ _ _ _ _ _ H) as Hs.
+    apply handle_non_read_spec in H. destruct H as (_ & _ & H). apply sol_fresh with seq; [apply H; reflexivity|].
+    destruct Hs; auto.
+  Qed.
+
+  Lemma tx_sol_ok dest r buf : sol_resp r -> obs_ok (OTx dest (response_bytes r buf)).
+  Proof. intros H. exists r, buf. auto. Qed.
+
+  Lemma one_tx_ok pre dest r buf post :
+    Forall no_tx pre -> Forall no_tx post -> sol_resp r ->
+    Forall obs_ok (pre ++ OTx dest (response_bytes r buf) :: post).
+  Proof.
+    intros H1 H2 H3. apply Forall_app. split; [apply no_tx_obs_ok; exact H1|].
+    constructor; [apply tx_sol_ok; exact H3 | apply no_tx_obs_ok; exact H2].
+  Qed.
+
+  (* the write-the-response tail of handle_one_request_from_idle *)
+  Lemma hfi_finish_IA from seq bytes fn s1 resp se rep o1 s' o :
+    IA s1 -> Forall no_tx o1 -> (forall r, resp = Some r -> sol_resp r) ->
+    hfi_finish cfg from seq bytes fn s1 resp se rep o1 = (s', o) ->
+    IA s' /\ Forall obs_ok o.
+  Proof.
+    intros [[I1 I2] I3] Ho1 Hr H. destruct resp as [r|].
+    - apply hfi_finish_some in H.
+      destruct H as (s2 & r' & pre & post & H1 & H2 & H3 & H4 & H5 & se' & H6 & H7 & H8).
+      assert (Hr' : sol_resp r').
+      { destruct rep; [subst r'; auto|]. eapply sol_sent; [exact H2|auto]. }
+      split; [split; [split|]|].
+      + intros l r0 Hl Hr0. rewrite H6 in Hl. inversion Hl; subst. cbn in Hr0. inversion Hr0; subst. exact Hr'.
+      + destruct H8 as [H8|[x H8]]; rewrite H8; [exact I2|exact I].
+      + eapply ans_ok_suffix; [|exact I3]. eapply ans_suffix_trans; [apply sc_ans; exact H1|apply sa_ans; exact H7].
+      + subst o. constructor; [exact I|]. apply Forall_app. split; [apply no_tx_obs_ok; exact Ho1|].
+        apply one_tx_ok; assumption.
+    - rewrite hfi_finish_none in H. inversion H; subst. split; [split; [split|]|].
+      + cbn. intros l r0 Hl Hr0. inversion Hl; subst. discriminate.
+      + exact I2.
+      + exact I3.
+      + constructor; [exact I|]. apply no_tx_obs_ok; exact Ho1.
+  Qed.
+
+  Lemma write_error_response_IA s from bc sq s1 o :
+    IA s -> write_error_response s from bc sq = (s1, o) -> IA s1 /\ Forall obs_ok o.
+  Proof.
+    intros HI H. apply write_error_response_spec in H. destruct H as [H1 H2].
+    split; [eapply IA_sc; eassumption|].
+    destruct bc as [m|]; [subst o; constructor|]. destruct sq as [q|]; [|subst o; constructor].
+    destruct H2 as (r' & pre & S1 & S2 & S3). subst o.
+    apply one_tx_ok; [exact S3|constructor|]. eapply sol_sent; [exact S1|apply sol_empty].
+  Qed.
+
+  Lemma read_resp_sol s r seq :
+    ans_ok s -> r_fn r = fn_response ->
+    (exists fir fin con, r_ctl r = ctl_byte fir fin con false seq) ->
+    (exists c e b, (r_size r = 4 + length b)%nat /\ (In (AWrite c e b) (s_answers s) \/ b = [])) ->
+    sol_resp r.
+  Proof.
+    intros Hok Hf (fir & fin & con & Hc) (c & e & b & Hs & Hin). unfold sol_resp.
+    rewrite Hf, Hc, ctl_byte_uns, Hs. split; [reflexivity|]. split; [reflexivity|]. eapply ans_ok_in; eassumption.
+  Qed.
+
+  Lemma handle_from_idle_IA s from bc bytes d fid s' o :
+    IA s -> handle_from_idle cfg s from bc bytes d fid = (s', o) -> IA s' /\ Forall obs_ok o.
+  Proof.
+    intros HI. rewrite handle_from_idle_eq. destruct (to_treq cfg from d) as [|sq|ctl fn obj].
+    - intros H; inversion H; subst. split; [exact HI|constructor].
+    - apply write_error_response_IA; exact HI.
+    - cbv zeta. destruct (classify s bc bytes ctl fn obj) as [iin2|hdrs rh|resp hdrs rh|hdrs|last|m|q|q] eqn:Ecl.
+      + apply hfi_finish_IA; [exact HI|constructor|]. intros r Hr; inversion Hr; subst. apply sol_empty.
+      + destruct (format_first_read_response s (ctl_seq ctl)) as [[[s1 r] se] o1] eqn:E.
+        apply format_first_read_response_spec in E. destruct E as (E1 & E2 & E3 & (fin & con & E4 & _) & E5).
+        apply hfi_finish_IA; [eapply IA_sc; eassumption|exact E2|]. intros r0 Hr; inversion Hr; subst.
+        eapply read_resp_sol; [exact (proj2 HI)|exact E3|eauto|exact E5].
+      + destruct (format_first_read_response s (ctl_seq ctl)) as [[[s1 r] se] o1] eqn:E.
+        apply format_first_read_response_spec in E. destruct E as (E1 & E2 & E3 & (fin & con & E4 & _) & E5).
+        apply hfi_finish_IA; [eapply IA_sc; eassumption|exact E2|]. intros r0 Hr; inversion Hr; subst.
+        eapply read_resp_sol; [exact (proj2 HI)|exact E3|eauto|exact E5].
+      + destruct (handle_non_read cfg s fn (ctl_seq ctl) fid bytes hdrs) as [[s1 r] o1] eqn:E.
+        pose proof (handle_non_read_spec _ _ _ _ _ _ _ _ _ _ E) as (E1 & E2 & _).
+        apply hfi_finish_IA; [eapply IA_sc; eassumption|exact E2|]. intros r0 Hr; subst r.
+        eapply sol_non_read; exact E.
+      + match goal with |- hfi_finish _ _ _ _ _ ?s1 _ _ _ _ = _ -> _ => set (s1' := s1) end.
+        assert (S1 : same_core s s1').
+        { subst s1'. destruct (s_select s) as [sel|]; [|apply sc_refl].
+          destruct ((ss_frame_id sel + 1) mod 4294967296 =? fid); eauto with sc. }
+        apply hfi_finish_IA; [eapply IA_sc; eassumption|constructor|]. intros r0 Hr; subst last.
+        (* the repeated response is the recorded one *)
+        unfold classify in Ecl. destruct bc as [m|]; [discriminate|].
+        destruct (fn =? fn_confirm); [destruct (ctl_uns ctl); discriminate|].
+        destruct obj as [e|hdrs rh]; [discriminate|].
+        destruct (s_last s) as [l|] eqn:El.
+        * destruct ((lr_seq l =? ctl_seq ctl) && bytes_eqb (lr_bytes l) bytes);
+            destruct (fn =? fn_read); inversion Ecl as [Hl]. apply (proj1 (proj1 HI) l r0 El Hl).
+        * destruct (fn =? fn_read); discriminate.
+      + destruct (process_broadcast cfg s m fid ctl fn bytes obj) as [s1 o1] eqn:E.
+        apply process_broadcast_spec in E. destruct E as [E1 E2].
+        intros H; inversion H; subst. split; [eapply IA_sc; eassumption|].
+        constructor; [exact I|]. apply no_tx_obs_ok; exact E2.
+      + intros H; inversion H; subst. split; [exact HI|]. repeat constructor.
+      + intros H; inversion H; subst. split; [exact HI|]. repeat constructor.
+  Qed.
+
+  Lemma IA_upd_deferred s x : IA s -> IA (upd_deferred s x).
+  Proof. intros H. exact H. Qed.
+  Lemma IA_upd_last_bcast s x : IA s -> IA (upd_last_bcast s x).
+  Proof. intros H. exact H. Qed.
+  Lemma IA_upd_pending s x : IA s -> IA (upd_pending s x).
+  Proof. intros H. exact H. Qed.
+  Lemma IA_upd_notify s x : IA s -> IA (upd_notify s x).
+  Proof. intros H. exact H. Qed.
+  Lemma IA_upd_now s x : IA s -> IA (upd_now s x).
+  Proof. intros H. exact H. Qed.
+  Lemma IA_upd_frame_id s x : IA s -> IA (upd_frame_id s x).
+  Proof. intros H. exact H. Qed.
+  Lemma IA_upd_unsol s x : IA s -> IA (upd_unsol s x).
+  Proof. intros H. exact H. Qed.
+  Lemma IA_upd_unsol_seq s x : IA s -> IA (upd_unsol_seq s x).
+  Proof. intros H. exact H. Qed.
+  Lemma IA_upd_unsol_buf s x : IA s -> IA (upd_unsol_buf s x).
+  Proof. intros H. exact H. Qed.
+  Lemma IA_upd_knobs s a b c : IA s -> IA (upd_knobs s a b c).
+  Proof. intros H. exact H. Qed.
+
+  Lemma IA_upd_control_wait s x dl r : IA s -> IA (upd_control s (CSolWait x dl r)).
+  Proof. intros [[I1 I2] I3]. split; [split|]; [exact I1|exact I|exact I3]. Qed.
+  Lemma IA_upd_control_idle s : IA s -> IA (upd_control s CIdle).
+  Proof. intros [[I1 I2] I3]. split; [split|]; [exact I1|exact I|exact I3]. Qed.
+  Lemma IA_upd_control_unsol s r n k dl : IA s -> unsol_resp r -> IA (upd_control s (CUnsolWait r n k dl)).
+  Proof. intros [[I1 I2] I3] Hr. split; [split|]; [exact I1|exact Hr|exact I3]. Qed.
+
+  Lemma IA_upd_last s seq bytes r se :
+    IA s -> (forall r0, r = Some r0 -> sol_resp r0) -> IA (upd_last s (mk_last seq bytes r se)).
+  Proof.
+    intros [[I1 I2] I3] Hr. split; [split|]; [|exact I2|exact I3].
+    cbn. intros l r0 Hl Hr0. inversion Hl; subst. cbn in Hr0. auto.
+  Qed.
+
+  Lemma write_solicited_IA s dest r s1 r1 o :
+    IA s -> sol_resp r -> write_solicited s dest r = (s1, r1, o) -> IA s1 /\ sol_resp r1 /\ Forall obs_ok o.
+  Proof.
+    intros HI Hr H. apply write_solicited_spec in H. destruct H as (E1 & (pre & E2 & E3) & E4 & E5 & E6 & E7).
+    assert (Hr1 : sol_resp r1) by (eapply sol_sent; [exact (conj E4 (conj E5 (conj E6 E7)))|exact Hr]).
+    split; [eapply IA_sc; eassumption|]. split; [exact Hr1|]. subst o.
+    apply one_tx_ok; [exact E3|constructor|exact Hr1].
+  Qed.
+
+  Lemma classify_repeat_last s bc bytes ctl fn obj last r :
+    classify s bc bytes ctl fn obj = FtRepeatNonRead last -> last = Some r ->
+    exists l, s_last s = Some l /\ lr_response l = Some r.
+  Proof.
+    unfold classify. intros Ecl Hl. subst last. destruct bc as [m|]; [discriminate|].
+    destruct (fn =? fn_confirm); [destruct (ctl_uns ctl); discriminate|].
+    destruct obj as [e|hdrs rh]; [discriminate|].
+    destruct (s_last s) as [l|] eqn:El.
+    - destruct ((lr_seq l =? ctl_seq ctl) && bytes_eqb (lr_bytes l) bytes);
+        destruct (fn =? fn_read); inversion Ecl as [Hl]. eauto.
+    - destruct (fn =? fn_read); discriminate.
+  Qed.
+
+  Lemma classify_repeat_read_last s bc bytes ctl fn obj last hdrs rh r :
+    classify s bc bytes ctl fn obj = FtRepeatRead last hdrs rh -> last = Some r ->
+    exists l, s_last s = Some l /\ lr_response l = Some r.
+  Proof.
+    unfold classify. intros Ecl Hl. subst last. destruct bc as [m|]; [discriminate|].
+    destruct (fn =? fn_confirm); [destruct (ctl_uns ctl); discriminate|].
+    destruct obj as [e|hdrs' rh']; [discriminate|].
+    destruct (s_last s) as [l|] eqn:El.
+    - destruct ((lr_seq l =? ctl_seq ctl) && bytes_eqb (lr_bytes l) bytes);
+        destruct (fn =? fn_read); inversion Ecl as [Hl]. eauto.
+    - destruct (fn =? fn_read); discriminate.
+  Qed.
+
+  Lemma unsol_wait_fragment_IA s resp from bc bytes d fid s' res o :
+    IA s -> unsol_wait_fragment cfg s resp from bc bytes d fid = (s', res, o) -> IA s' /\ Forall obs_ok o.
+  Proof.
+    intros HI. unfold unsol_wait_fragment. destruct (to_treq cfg from d) as [|sq|ctl fn obj].
+    - intros H; inversion H; subst. split; [exact HI|constructor].
+    - destruct (write_error_response (upd_deferred s None) from bc sq) as [s1 o1] eqn:E.
+      apply write_error_response_IA in E; [|exact HI]. intros H; inversion H; subst. exact E.
+    - destruct (classify s bc bytes ctl fn obj) as [iin2|hdrs rh|rsp hdrs rh|hdrs|last|m|q|q] eqn:Ecl.
+      + destruct (write_solicited (upd_deferred s None) from (empty_solicited (ctl_seq ctl) iin2)) as [[s1 r1] o1] eqn:E.
+        apply write_solicited_IA in E; [|exact HI|apply sol_empty]. intros H; inversion H; subst. tauto.
+      + intros H; inversion H; subst. split; [exact HI|constructor].
+      + intros H; inversion H; subst. split; [exact HI|constructor].
+      + destruct (handle_non_read cfg (upd_deferred s None) fn (ctl_seq ctl) fid bytes hdrs) as [[s1 r] o1] eqn:E.
+        pose proof (handle_non_read_spec _ _ _ _ _ _ _ _ _ _ E) as (E1 & E2 & _).
+        assert (HI1 : IA s1) by (eapply IA_sc; [exact E1|exact HI]).
+        destruct r as [r0|].
+        * apply sol_non_read in E.
+          destruct (write_solicited s1 from r0) as [[s2 r1] o2] eqn:E3.
+          apply write_solicited_IA in E3; [|exact HI1|exact E]. destruct E3 as (F1 & F2 & F3).
+          intros H; inversion H; subst. split.
+          -- apply IA_upd_last; [exact F1|]. intros r2 Hr2; inversion Hr2; subst; exact F2.
+          -- apply Forall_app. split; [apply no_tx_obs_ok; exact E2|exact F3].
+        * intros H; inversion H; subst. split.
+          -- apply IA_upd_last; [exact HI1|]. discriminate.
+          -- apply Forall_app. split; [apply no_tx_obs_ok; exact E2|constructor].
+      + intros H; inversion H; subst. split; [exact HI|].
+        destruct last as [r|]; [|constructor].
+        destruct (classify_repeat_last _ _ _ _ _ _ _ _ Ecl eq_refl) as (l & Hl1 & Hl2).
+        constructor; [|constructor]. apply tx_sol_ok. exact (proj1 (proj1 HI) l r Hl1 Hl2).
+      + destruct (process_broadcast cfg (upd_deferred s None) m fid ctl fn bytes obj) as [s1 o1] eqn:E.
+        apply process_broadcast_spec in E. destruct E as [E1 E2].
+        intros H; inversion H; subst. split; [eapply IA_sc; [exact E1|exact HI]|apply no_tx_obs_ok; exact E2].
+      + intros H; inversion H; subst. split; [|constructor].
+        destruct (s_last_bcast s) as [[]|]; exact HI.
+      + destruct (q =? ctl_seq (r_ctl resp)); intros H; inversion H; subst.
+        * split; [exact HI|repeat constructor].
+        * split; [exact HI|constructor].
+  Qed.
+
+  Lemma unsol_header_resp seq n : unsol_resp (unsol_header seq n).
+  Proof. split; [reflexivity|]. exists seq. reflexivity. Qed.
+
+  Lemma start_unsol_IA s r is_null s' o :
+    IA s -> unsol_resp r -> start_unsol cfg s r is_null = (s', o) -> IA s' /\ Forall obs_ok o.
+  Proof.
+    intros HI Hr H. apply start_unsol_spec in H.
+    destruct H as (s1 & r1 & pre & E1 & E2 & E3 & E4 & E5 & E6 & E7).
+    assert (Hr1 : unsol_resp r1).
+    { destruct Hr as [A [q B]]. split; [congruence|]. exists q. congruence. }
+    subst s' o. split.
+    - apply IA_upd_control_unsol; [eapply IA_sc; eassumption|exact Hr1].
+    - apply Forall_app. split; [apply no_tx_obs_ok; exact E7|].
+      constructor; [|repeat constructor]. exists r1, (s_unsol_buf s1). auto.
+  Qed.
+
+  Lemma check_unsolicited_IA s s' ns o :
+    IA s -> check_unsolicited cfg s = (s', ns, o) -> IA s' /\ Forall obs_ok o.
+  Proof.
+    intros HI. unfold check_unsolicited. destruct (negb (o_unsol cfg)).
+    { intros H; inversion H; subst. split; [exact HI|constructor]. }
+    destruct (s_unsol s) as [|deadline].
+    { destruct (start_unsol cfg (upd_unsol_seq s (seq16_next (s_unsol_seq s))) (unsol_header (s_unsol_seq s) 0) true) as [s2 o2] eqn:E.
+      apply start_unsol_IA in E; [|exact HI|apply unsol_header_resp]. intros H; inversion H; subst. exact E. }
+    destruct (negb match deadline with Some t => (t <=? s_now s)%Z | None => true end).
+    { intros H; inversion H; subst. split; [exact HI|constructor]. }
+    destruct (negb (any_enabled s)).
+    { intros H; inversion H; subst. split; [exact HI|constructor]. }
+    destruct (ask_unsol s) as [s1 [count body]] eqn:E0. apply ask_unsol_spec in E0.
+    assert (HI1 : IA s1) by (eapply IA_sc; eassumption).
+    destruct (s_enabled s) as [[c1 c2] c3].
+    destruct (count =? 0).
+    { intros H; inversion H; subst. split; [exact HI1|constructor]. }
+    match goal with |- context [start_unsol cfg ?a ?b ?c] => destruct (start_unsol cfg a b c) as [s3 o3] eqn:E end.
+    apply start_unsol_IA in E; [|exact HI1|apply unsol_header_resp].
+    intros H; inversion H; subst. split; [tauto|]. constructor; [exact I|tauto].
+  Qed.
+
+  Lemma end_unsol_IA s is_null res s' ns o :
+    IA s -> end_unsol cfg s is_null res = (s', ns, o) -> IA s' /\ Forall obs_ok o.
+  Proof.
+    intros HI. unfold end_unsol.
+    destruct is_null, res; intros H; inversion H; subst;
+      (split; [apply IA_upd_unsol, IA_upd_control_idle, HI|repeat constructor]).
+  Qed.
+
+  Lemma handle_deferred_IA s ns s' o :
+    IA s -> handle_deferred cfg s ns = (s', o) -> IA s' /\ Forall obs_ok o.
+  Proof.
+    intros HI H. destruct (s_deferred s) as [d|] eqn:Ed.
+    - unfold handle_deferred in H. rewrite Ed in H.
+      destruct (ask_iin2 (upd_notify (upd_deferred s None) true) DbDeferredSelect) as [[s1 iin2] o1] eqn:E1.
+      apply ask_iin2_spec in E1. destruct E1 as [A1 A2].
+      assert (HI1 : IA s1) by (eapply IA_sc; [exact A1|exact HI]).
+      destruct (format_read_response s1 true (df_seq d) (N.lor (df_iin2 d) iin2)) as [[[s2 r] se] o2] eqn:E2.
+      apply format_read_response_spec in E2.
+      destruct E2 as (B1 & B2 & B3 & _ & (fin & con & B4 & _) & (c & e & b & B5 & B6)).
+      assert (HI2 : IA s2) by (eapply IA_sc; eassumption).
+      assert (Hr : sol_resp r).
+      { eapply read_resp_sol; [exact (proj2 HI1)|exact B3|eauto|].
+        exists c, e, b. split; [exact B5|]. destruct B6 as [[rest B6]|B6]; [left; rewrite B6; left; reflexivity|right; exact B6]. }
+      destruct (write_solicited s2 (df_from d) r) as [[s3 r'] o3] eqn:E3.
+      apply write_solicited_IA in E3; [|exact HI2|exact Hr]. destruct E3 as (F1 & F2 & F3).
+      assert (HI4 : IA (upd_last s3 (mk_last (df_seq d) (df_bytes d) (Some r') se))).
+      { apply IA_upd_last; [exact F1|]. intros r0 Hr0; inversion Hr0; subst; exact F2. }
+      assert (Ho : Forall obs_ok (o1 ++ o2 ++ o3)).
+      { apply Forall_app. split; [apply no_tx_obs_ok; exact A2|]. apply Forall_app. split; [apply no_tx_obs_ok; exact B2|exact F3]. }
+      match type of H with (match ?x with Some _ => _ | None => _ end) = _ => destruct x as [x0|] end;
+        inversion H; subst.
+      + split; [apply IA_upd_control_wait; exact HI4|].
+        rewrite !app_assoc. apply Forall_app. split; [rewrite <- !app_assoc; exact Ho|repeat constructor].
+      + split; [exact HI4|exact Ho].
+    - rewrite handle_deferred_none in H by exact Ed. inversion H; subst. split; [exact HI|constructor].
+  Qed.
+
+  Lemma idle_run_IA fuel : forall st s s' o,
+    IA s -> idle_run fuel cfg st s = (s', o) -> IA s' /\ Forall obs_ok o.
+  Proof.
+    induction fuel as [|f IH]; intros st s s' o HI H; cbn [idle_run] in H.
+    { inversion H; subst. split; [exact HI|repeat constructor]. }
+    destruct st as [| |ns|ns].
+    - (* St1 *)
+      destruct (match s_pending s with
+                | Some (from, bc, bytes, d, fid) => handle_from_idle cfg (upd_pending s None) from bc bytes d fid
+                | None => (s, [])
+                end) as [s1 o1] eqn:E1.
+      assert (H1 : IA s1 /\ Forall obs_ok o1).
+      { destruct (s_pending s) as [[[[[from bc] bytes] d] fid]|].
+        - eapply handle_from_idle_IA; [|exact E1]. exact HI.
+        - inversion E1; subst. split; [exact HI|constructor]. }
+      destruct H1 as [HI1 Ho1].
+      destruct (s_control s1); [|inversion H; subst; split; assumption..].
+      destruct (idle_run f cfg St2 s1) as [s2 o2] eqn:E2. apply IH in E2; [|exact HI1].
+      inversion H; subst. split; [tauto|apply Forall_app; tauto].
+    - (* St2 *)
+      destruct (check_unsolicited cfg s) as [[s2 ns] o2] eqn:E2.
+      apply check_unsolicited_IA in E2; [|exact HI]. destruct E2 as [HI2 Ho2].
+      destruct (s_control s2) as [|se dl r|resp is_null retries dl] eqn:Ec.
+      + destruct (idle_run f cfg (St3 false) s2) as [s3 o3] eqn:E3. apply IH in E3; [|exact HI2].
+        inversion H; subst. split; [tauto|apply Forall_app; tauto].
+      + inversion H; subst. split; assumption.
+      + destruct (s_pending s2) as [[[[[from bc] bytes] d] fid]|]; [|inversion H; subst; split; assumption].
+        destruct (unsol_wait_fragment cfg (upd_pending s2 None) resp from bc bytes d fid) as [[s3 res] o3] eqn:E3.
+        apply unsol_wait_fragment_IA in E3; [|exact HI2]. destruct E3 as [HI3 Ho3].
+        destruct res as [r|]; [|inversion H; subst; split; [assumption|apply Forall_app; tauto]].
+        destruct (end_unsol cfg s3 is_null r) as [[s4 ns4] o4] eqn:E4.
+        apply end_unsol_IA in E4; [|exact HI3]. destruct E4 as [HI4 Ho4].
+        destruct (idle_run f cfg (St3 ns4) s4) as [s5 o5] eqn:E5. apply IH in E5; [|exact HI4].
+        inversion H; subst. split; [tauto|]. repeat (apply Forall_app; split); tauto.
+    - (* St3 *)
+      destruct (handle_deferred cfg s ns) as [s3 o3] eqn:E3.
+      apply handle_deferred_IA in E3; [|exact HI]. destruct E3 as [HI3 Ho3].
+      destruct (s_control s3); [|inversion H; subst; split; assumption..].
+      destruct (idle_run f cfg (St4 ns) s3) as [s4 o4] eqn:E4. apply IH in E4; [|exact HI3].
+      inversion H; subst. split; [tauto|apply Forall_app; tauto].
+    - (* St4 *)
+      destruct (s_pending s); [eapply IH; eassumption|].
+      destruct ns; [eapply IH; eassumption|].
+      destruct (s_notify s); [eapply IH; [|exact H]; exact HI|].
+      inversion H; subst. split; [exact HI|constructor].
+  Qed.
+
+  Lemma resume_at_IA st s s' o : IA s -> resume_at cfg st s = (s', o) -> IA s' /\ Forall obs_ok o.
+  Proof. unfold resume_at. apply idle_run_IA. Qed.
+
+  Lemma idle_loop_IA n s s' o : IA s -> idle_loop n cfg s = (s', o) -> IA s' /\ Forall obs_ok o.
+  Proof. unfold idle_loop. apply idle_run_IA. Qed.
+
+  Lemma fire_deadline_IA s s' o : IA s -> fire_deadline cfg s = (s', o) -> IA s' /\ Forall obs_ok o.
+  Proof.
+    intros HI. unfold fire_deadline. destruct (s_control s) as [|se dl r|resp is_null retries dl] eqn:Ec.
+    - apply resume_at_IA; exact HI.
+    - destruct (resume_at cfg (stage_of r) (upd_control s CIdle)) as [s1 o1] eqn:E.
+      apply resume_at_IA in E; [|apply IA_upd_control_idle; exact HI].
+      intros H; inversion H; subst. split; [tauto|]. cbn [app]. constructor; [exact I|]. constructor; [exact I|]. tauto.
+    - assert (Hresp : unsol_resp resp). { destruct HI as [[_ I2] _]. rewrite Ec in I2. exact I2. }
+      match goal with |- (if ?c then _ else _) = _ -> _ => destruct c end.
+      + intros H; inversion H; subst. split; [apply IA_upd_control_unsol; assumption|].
+        cbn [app]. constructor; [exact I|]. unfold repeat_unsolicited. constructor; [|constructor].
+        exists resp, (s_unsol_buf s). auto.
+      + destruct (end_unsol cfg s is_null UrTimeout) as [[s1 ns] o1] eqn:E1.
+        apply end_unsol_IA in E1; [|exact HI]. destruct E1 as [HI1 Ho1].
+        destruct (resume_at cfg (St3 ns) s1) as [s2 o2] eqn:E2. apply resume_at_IA in E2; [|exact HI1].
+        intros H; inversion H; subst. split; [tauto|]. cbn [app]. constructor; [exact I|].
+        apply Forall_app. tauto.
+  Qed.
+
+  Lemma advance_IA fuel : forall s target s' o,
+    IA s -> advance fuel cfg s target = (s', o) -> IA s' /\ Forall obs_ok o.
+  Proof.
+    induction fuel as [|f IH]; intros s target s' o HI H; cbn [advance] in H.
+    { inversion H; subst. split; [exact HI|repeat constructor]. }
+    destruct (next_deadline cfg s) as [d|]; [|inversion H; subst; split; [exact HI|constructor]].
+    destruct (d <=? target)%Z; [|inversion H; subst; split; [exact HI|constructor]].
+    destruct (fire_deadline cfg (upd_now s (Z.max d (s_now s)))) as [s1 o1] eqn:E1.
+    apply fire_deadline_IA in E1; [|exact HI]. destruct E1 as [HI1 Ho1].
+    destruct (advance f cfg s1 target) as [s2 o2] eqn:E2. apply IH in E2; [|exact HI1].
+    inversion H; subst. split; [tauto|]. constructor; [exact I|]. apply Forall_app. tauto.
+  Qed.
+
+  Lemma sol_wait_fragment_ok s se dl from bc bytes d oc o :
+    IA s -> sol_wait_fragment cfg s se dl from bc bytes d = (oc, o) -> Forall obs_ok o.
+  Proof.
+    intros HI. unfold sol_wait_fragment. destruct (to_treq cfg from d) as [|sq|ctl fn obj].
+    - intros H; inversion H; subst. constructor.
+    - intros H; inversion H; subst. repeat constructor.
+    - destruct (classify s bc bytes ctl fn obj) as [iin2|hdrs rh|rsp hdrs rh|hdrs|last|m|q|q] eqn:Ecl;
+        try (intros H; inversion H; subst; repeat constructor; fail).
+      + intros H; inversion H; subst. destruct rsp as [r|]; [|constructor].
+        destruct (classify_repeat_read_last _ _ _ _ _ _ _ _ _ _ Ecl eq_refl) as (l & Hl1 & Hl2).
+        constructor; [|constructor]. apply tx_sol_ok. exact (proj1 (proj1 HI) l r Hl1 Hl2).
+      + destruct (q =? se_ecsn se); intros H; inversion H; subst; repeat constructor.
+  Qed.
+
+  Lemma on_rx_IA s from bc bytes d s' o : IA s -> on_rx cfg s from bc bytes d = (s', o) -> IA s' /\ Forall obs_ok o.
+  Proof.
+    intros HI. unfold on_rx.
+    set (fid := (s_frame_id s + 1) mod 4294967296).
+    assert (HI0 : IA (upd_frame_id s fid)) by exact HI.
+    destruct (s_control (upd_frame_id s fid)) as [|se dl r|resp is_null retries dl] eqn:Ec.
+    - apply idle_loop_IA. exact HI0.
+    - destruct (sol_wait_fragment cfg (upd_frame_id s fid) se dl from bc bytes d) as [oc o1] eqn:E1.
+      pose proof (sol_wait_fragment_ok _ _ _ _ _ _ _ _ _ HI0 E1) as Ho1.
+      destruct oc as [dl'|respond_to|].
+      + intros H; inversion H; subst. split; [apply IA_upd_control_wait; exact HI0|exact Ho1].
+      + destruct (se_fin se).
+        * match goal with |- context [resume_at cfg ?a ?b] => destruct (resume_at cfg a b) as [s2 o2] eqn:E2 end.
+          apply resume_at_IA in E2; [|apply IA_upd_control_idle; exact HI0].
+          intros H; inversion H; subst. split; [tauto|]. apply Forall_app. split; [exact Ho1|].
+          constructor; [exact I|tauto].
+        * match goal with |- context [format_read_response ?a ?b ?c ?e] =>
+            destruct (format_read_response a b c e) as [[[s2 rsp] next] o2] eqn:E2 end.
+          apply format_read_response_spec in E2.
+          destruct E2 as (B1 & B2 & B3 & _ & (fin & con & B4 & _) & (c & e & b & B5 & B6)).
+          assert (HI2 : IA s2) by (eapply IA_sc; [exact B1|exact HI0]).
+          assert (Hr : sol_resp rsp).
+          { eapply read_resp_sol; [exact (proj2 HI0)|exact B3|eauto|].
+            exists c, e, b. split; [exact B5|].
+            destruct B6 as [[rest B6]|B6]; [left; cbn in B6; cbn; rewrite B6; left; reflexivity|right; exact B6]. }
+          destruct (write_solicited s2 respond_to rsp) as [[s3 rsp'] o3] eqn:E3.
+          apply write_solicited_IA in E3; [|exact HI2|exact Hr]. destruct E3 as (F1 & F2 & F3).
+          match goal with |- context [upd_last s3 ?x] => set (nl := x) end.
+          assert (HI4 : IA (upd_last s3 nl)).
+          { destruct F1 as [[I1 I2] I3]. split; [split|]; [|exact I2|exact I3].
+            cbn. subst nl. intros l r0 Hl Hr0. destruct (s_last s3) as [l0|]; [|discriminate].
+            inversion Hl; subst. cbn in Hr0. inversion Hr0; subst. exact F2. }
+          assert (Ho : Forall obs_ok (o1 ++ [ODb DbClearWritten] ++ o2 ++ o3)).
+          { apply Forall_app. split; [exact Ho1|]. constructor; [exact I|].
+            apply Forall_app. split; [apply no_tx_obs_ok; exact B2|exact F3]. }
+          destruct next as [n|].
+          -- intros H; inversion H; subst. split; [apply IA_upd_control_wait; exact HI4|exact Ho].
+          -- match goal with |- context [resume_at cfg ?a ?b] => destruct (resume_at cfg a b) as [s5 o5] eqn:E5 end.
+             apply resume_at_IA in E5; [|apply IA_upd_control_idle; exact HI4].
+             intros H; inversion H; subst. split; [tauto|].
+             apply Forall_app. split; [exact Ho1|]. constructor; [exact I|].
+             apply Forall_app. split; [apply no_tx_obs_ok; exact B2|].
+             apply Forall_app. split; [exact F3|exact (proj2 E5)].
+      + match goal with |- context [resume_at cfg ?a ?b] => destruct (resume_at cfg a b) as [s2 o2] eqn:E2 end.
+        apply resume_at_IA in E2; [|apply IA_upd_pending, IA_upd_control_idle; exact HI0].
+        intros H; inversion H; subst. split; [tauto|]. apply Forall_app. split; [exact Ho1|].
+        constructor; [exact I|tauto].
+    - destruct (unsol_wait_fragment cfg (upd_frame_id s fid) resp from bc bytes d fid) as [[s1 res] o1] eqn:E1.
+      apply unsol_wait_fragment_IA in E1; [|exact HI0]. destruct E1 as [HI1 Ho1].
+      destruct res as [r|]; [|intros H; inversion H; subst; split; assumption].
+      destruct (end_unsol cfg s1 is_null r) as [[s2 ns] o2] eqn:E2.
+      apply end_unsol_IA in E2; [|exact HI1]. destruct E2 as [HI2 Ho2].
+      destruct (resume_at cfg (St3 ns) s2) as [s3 o3] eqn:E3. apply resume_at_IA in E3; [|exact HI2].
+      intros H; inversion H; subst. split; [tauto|]. repeat (apply Forall_app; split); tauto.
+  Qed.
+
+  Lemma ostep_IA s ev answers s' o :
+    Inv s -> Forall aok answers -> ostep cfg s ev answers = (s', o) -> IA s' /\ Forall obs_ok o.
+  Proof.
+    intros HInv Hans. assert (HI0 : IA (upd_answers s answers)) by (split; [exact HInv|exact Hans]).
+    unfold ostep. destruct ev as [from bc bytes d|ms| |sel op|v|].
+    - destruct (on_rx cfg (upd_answers s answers) from bc bytes d) as [s1 o1] eqn:E1.
+      apply on_rx_IA in E1; [|exact HI0]. destruct E1 as [HI1 Ho1].
+      destruct (advance 64 cfg s1 (s_now s1 + settle_ms)) as [s2 o2] eqn:E2.
+      apply advance_IA in E2; [|exact HI1]. intros H; inversion H; subst. split; [tauto|apply Forall_app; tauto].
+    - destruct (advance 4096 cfg (upd_answers s answers) (s_now (upd_answers s answers) + ms)) as [s1 o1] eqn:E1.
+      apply advance_IA in E1; [|exact HI0]. intros H; inversion H; subst. exact E1.
+    - destruct (match s_control (upd_answers s answers) with
+                | CIdle => idle_loop 8 cfg (upd_answers s answers)
+                | _ => (upd_notify (upd_answers s answers) true, [])
+                end) as [s1 o1] eqn:E1.
+      assert (H1 : IA s1 /\ Forall obs_ok o1).
+      { destruct (s_control (upd_answers s answers)).
+        - eapply idle_loop_IA; [exact HI0|exact E1].
+        - inversion E1; subst. split; [exact HI0|constructor].
+        - inversion E1; subst. split; [exact HI0|constructor]. }
+      destruct H1 as [HI1 Ho1].
+      destruct (advance 64 cfg s1 (s_now s1 + settle_ms)) as [s2 o2] eqn:E2.
+      apply advance_IA in E2; [|exact HI1]. intros H; inversion H; subst. split; [tauto|apply Forall_app; tauto].
+    - intros H; inversion H; subst. split; [exact HI0|constructor].
+    - intros H; inversion H; subst. split; [exact HI0|constructor].
+    - match goal with |- context [idle_loop 8 cfg ?a] => destruct (idle_loop 8 cfg a) as [s2 o2] eqn:E2 end.
+      apply idle_loop_IA in E2.
+      2:{ destruct HI0 as [[I1 I2] I3]. split; [split|]; [|exact I|exact I3]. cbn. discriminate. }
+      destruct E2 as [HI2 Ho2].
+      destruct (advance 64 cfg s2 (s_now s2 + settle_ms)) as [s3 o3] eqn:E3.
+      apply advance_IA in E3; [|exact HI2]. intros H; inversion H; subst. split; [tauto|].
+      constructor; [exact I|]. constructor; [exact I|]. apply Forall_app. tauto.
+  Qed.
+
+  Lemma ostart_IA sel op iin a0 s' o :
+    Forall aok a0 -> ostart cfg sel op iin a0 = (s', o) -> IA s' /\ Forall obs_ok o.
+  Proof.
+    unfold ostart. intros Ha H. apply idle_loop_IA in H; [exact H|].
+    split; [split|]; [|exact I|exact Ha]. cbn. discriminate.
+  Qed.
+
+  Lemma Reach_Inv (AP : list answer -> Prop) s :
+    (forall a, AP a -> Forall aok a) -> Reach AP cfg s -> Inv s.
+  Proof.
+    intros HAP. induction 1 as [sel op iin a0 Ha|s ev ans HR IH Ha].
+    - destruct (ostart cfg sel op iin a0) as [s' o] eqn:E. apply ostart_IA in E; [|auto]. exact (proj1 (proj1 E)).
+    - destruct (ostep cfg s ev ans) as [s' o] eqn:E. apply ostep_IA in E; auto. exact (proj1 (proj1 E)).
+  Qed.
+End Sized.
+
+Lemma response_bytes_length r buf :
+  (4 <= length (response_bytes r buf) <= Nat.max 4 (r_size r))%nat.
 Proof.
-  unfold ctl_seq, ctl_byte.
-  destruct fir, fin, con, uns; lia.
-Qed.
-
-Lemma ctl_byte_uns fir fin con uns seq : ctl_uns (ctl_byte fir fin con uns seq) = uns.
-Proof.
-  unfold ctl_uns, ctl_byte. rewrite testbit_div. change (2 ^ 4) with 16.
-  destruct fir, fin, con, uns; lia.
-Qed.
-
-Lemma ctl_byte_con fir fin con uns seq : ctl_con (ctl_byte fir fin con uns seq) = con.
-Proof.
-  unfold ctl_con, ctl_byte. rewrite testbit_div. change (2 ^ 5) with 32.
-  destruct fir, fin, con, uns; lia.
-Qed.
-
-Lemma ctl_byte_fir fir fin con uns seq : N.testbit (ctl_byte fir fin con uns seq) 7 = fir.
-Proof.
-  unfold ctl_byte. rewrite testbit_div. change (2 ^ 7) with 128.
-  destruct fir, fin, con, uns; lia.
-Qed.
-
-Lemma ctl_byte_fin fir fin con uns seq : N.testbit (ctl_byte fir fin con uns seq) 6 = fin.
-Proof.
-  unfold ctl_byte. rewrite testbit_div. change (2 ^ 6) with 64.
-  destruct fir, fin, con, uns; lia.
-Qed.
-
-Lemma ctl_byte_lt fir fin con uns seq : ctl_byte fir fin con uns seq < 256.
-Proof. unfold ctl_byte. destruct fir, fin, con, uns; lia. Qed.
-
-Lemma ctl_byte_unsol_ge seq : 240 <= ctl_byte true true true true seq.
-Proof. unfold ctl_byte. lia. Qed.
-
-Lemma set_con_seq c : ctl_seq (set_con c) = ctl_seq c.
-Proof. unfold set_con, ctl_seq. destruct (ctl_con c); lia. Qed.
-
-Lemma set_con_uns c : ctl_uns (set_con c) = ctl_uns c.
-Proof.
-  unfold set_con, ctl_uns. destruct (ctl_con c); [reflexivity|].
-  rewrite !testbit_div. change (2 ^ 4) with 16. lia.
-Qed.
-
-Lemma set_con_fir c : N.testbit (set_con c) 7 = N.testbit c 7.
-Proof.
-  unfold set_con, ctl_con. destruct (N.testbit c 5) eqn:E; [reflexivity|].
-  rewrite testbit_div in E. rewrite !testbit_div. change (2 ^ 5) with 32 in E. change (2 ^ 7) with 128.
+  unfold response_bytes. rewrite app_length. cbn [length].
+  pose proof (firstn_le_length (r_size r - 4) buf) as H1.
+  assert (H2 : (length (firstn (r_size r - 4) buf) <= r_size r - 4)%nat).
+  { rewrite firstn_length. lia. }
   lia.
 Qed.
 
-Lemma set_con_con c : ctl_con (set_con c) = true.
-Proof.
-  unfold set_con. destruct (ctl_con c) eqn:E; [exact E|].
-  unfold ctl_con in *. rewrite testbit_div in E. rewrite testbit_div. change (2 ^ 5) with 32 in *. lia.
-Qed.
-
-Lemma seq16_next_lt q : seq16_next q < 16.
-Proof. unfold seq16_next. lia. Qed.
-
-Lemma land7_lor a b : N.land a 7 <> 0 -> N.land (N.lor a b) 7 <> 0.
-Proof.
-  intros Ha Hz. rewrite N.land_lor_distr_l in Hz. apply N.lor_eq_0_l in Hz. contradiction.
-Qed.
-
-Lemma land7_lor_r a b : N.land b 7 <> 0 -> N.land (N.lor a b) 7 <> 0.
-Proof. rewrite N.lor_comm. apply land7_lor. Qed.
-
-Lemma land_lor_absorb a b : N.land (N.lor a b) a = a.
-Proof.
-  apply N.bits_inj. intros n. rewrite N.land_spec, N.lor_spec.
-  destruct (N.testbit a n), (N.testbit b n); reflexivity.
-Qed.
-
-Lemma bytes_eqb_eq a : forall b, bytes_eqb a b = true -> a = b.
-Proof.
-  induction a as [|x a IH]; intros [|y b] H; cbn [bytes_eqb] in H; try discriminate; [reflexivity|].
-  apply andb_true_iff in H. destruct H as [H1 H2]. apply N.eqb_eq in H1. subst. f_equal. auto.
-Qed.
-
-(* ---------- what the low-level helpers leave alone ------------------------------------------ *)
-
-Definition ans_suffix (s s' : ostate) : Prop := exists pre, s_answers s = pre ++ s_answers s'.
-
-(* every field the properties talk about; the helpers below change only s_answers (consuming
-   answers), s_last_bcast, s_restart_iin, s_enabled, s_sol_buf, s_select, s_last_recorded *)
-Definition same_core (s s' : ostate) : Prop :=
-  s_now s' = s_now s /\ s_control s' = s_control s /\ s_last s' = s_last s /\ s_unsol s' = s_unsol s /\
-  s_unsol_seq s' = s_unsol_seq s /\ s_deferred s' = s_deferred s /\ s_unsol_buf s' = s_unsol_buf s /\
-  s_pending s' = s_pending s /\ s_frame_id s' = s_frame_id s /\ s_notify s' = s_notify s /\
-  s_sel_status s' = s_sel_status s /\ s_op_status s' = s_op_status s /\ s_app_iin s' = s_app_iin s /\
-  ans_suffix s s'.
-
-Lemma sc_refl s : same_core s s.
-Proof. unfold same_core, ans_suffix. repeat split. exists []. reflexivity. Qed.
-
-Lemma sc_trans s1 s2 s3 : same_core s1 s2 -> same_core s2 s3 -> same_core s1 s3.
-Proof.
-  unfold same_core, ans_suffix.
-  intros (A1 & A2 & A3 & A4 & A5 & A6 & A7 & A8 & A9 & A10 & A11 & A12 & A13 & [p1 A14])
-         (B1 & B2 & B3 & B4 & B5 & B6 & B7 & B8 & B9 & B10 & B11 & B12 & B13 & [p2 B14]).
-  repeat split; try congruence.
-  exists (p1 ++ p2). rewrite A14, B14, app_assoc. reflexivity.
-Qed.
-
-Ltac sc_basic := unfold same_core, ans_suffix; cbn; repeat split; exists []; reflexivity.
-
-Lemma sc_pop s a rest : s_answers s = a :: rest -> same_core s (upd_answers s rest).
-Proof. intros H. unfold same_core, ans_suffix. cbn. repeat split. exists [a]. rewrite H. reflexivity. Qed.
-Lemma sc_last_bcast s b : same_core s (upd_last_bcast s b).  Proof. sc_basic. Qed.
-Lemma sc_restart s b : same_core s (upd_restart s b).  Proof. sc_basic. Qed.
-Lemma sc_enabled s b : same_core s (upd_enabled s b).  Proof. sc_basic. Qed.
-Lemma sc_sol_buf s b : same_core s (upd_sol_buf s b).  Proof. sc_basic. Qed.
-Lemma sc_select s b : same_core s (upd_select s b).  Proof. sc_basic. Qed.
-Lemma sc_last_recorded s b : same_core s (upd_last_recorded s b).  Proof. sc_basic. Qed.
-
-#[global] Hint Resolve sc_refl sc_pop sc_last_bcast sc_restart sc_enabled sc_sol_buf sc_select sc_last_recorded : sc.
-
-(* observations that are not transmissions *)
-Definition no_tx (o : oobs) : Prop := match o with OTx _ _ => False | _ => True end.
-
-Lemma Forall_no_tx_app a b : Forall no_tx a -> Forall no_tx b -> Forall no_tx (a ++ b).
-Proof. intros. apply Forall_app. auto. Qed.
-
-Ltac notx := repeat (first [apply Forall_nil | apply Forall_cons; [exact I|] | apply Forall_app; split]); auto.
-
-Lemma ask_evinfo_spec s s1 x o : ask_evinfo s = (s1, x, o) -> same_core s s1 /\ Forall no_tx o.
-Proof.
-  unfold ask_evinfo. destruct (s_answers s) as [|[] rest] eqn:Ea; intros H; inversion H; subst; clear H;
-    (split; [eauto with sc | notx]).
-Qed.
-
-Lemma ask_iin2_spec s c s1 x o : ask_iin2 s c = (s1, x, o) -> same_core s s1 /\ Forall no_tx o.
-Proof.
-  unfold ask_iin2. destruct (s_answers s) as [|[] rest] eqn:Ea; intros H; inversion H; subst; clear H;
-    (split; [eauto with sc | notx]).
-Qed.
-
-Lemma ask_unsol_spec s s1 x : ask_unsol s = (s1, x) -> same_core s s1.
-Proof.
-  unfold ask_unsol. destruct (s_answers s) as [|[] rest] eqn:Ea; intros H; inversion H; subst; clear H;
-    eauto with sc.
-Qed.
-
-Ltac notx2 :=
-  repeat match goal with
-         | |- Forall _ [] => apply Forall_nil
-         | |- Forall _ (_ :: _) => apply Forall_cons; [exact I|]
-         | |- Forall _ (_ ++ _) => apply Forall_app; split
-         | |- Forall _ (if ?b then _ else _) => destruct b
-         end; auto.
-
-Lemma response_iin_spec s s2 iin o : response_iin s = (s2, iin, o) -> same_core s s2 /\ Forall no_tx o.
-Proof.
-  unfold response_iin. destruct (ask_evinfo s) as [[s1 [[[c1 c2] c3] ovf]] o1] eqn:E.
-  apply ask_evinfo_spec in E. destruct E as [E1 E2].
-  intros H. inversion H; subst; clear H. split; [|exact E2].
-  destruct (s_last_bcast s1) as [[]|]; eauto using sc_trans with sc.
-Qed.
-
-(* write_solicited: the response as sent keeps function code and size, its control octet is the
-   handler's or that plus CON, IIN bits are only added; the fragment is the last observation *)
-Lemma write_solicited_spec s dest r s1 r2 o :
-  write_solicited s dest r = (s1, r2, o) ->
-  same_core s s1 /\
-  (exists pre, o = pre ++ [OTx dest (response_bytes r2 (s_sol_buf s1))] /\ Forall no_tx pre) /\
-  r_fn r2 = r_fn r /\ r_size r2 = r_size r /\
-  (r_ctl r2 = r_ctl r \/ r_ctl r2 = set_con (r_ctl r)) /\
-  (exists x, r_iin2 r2 = N.lor (r_iin2 r) x).
-Proof.
-  unfold write_solicited. destruct (response_iin s) as [[s' iin] o'] eqn:E.
-  apply response_iin_spec in E. destruct E as [E1 E2].
-  intros H. inversion H; subst; clear H.
-  split; [exact E1|]. split; [exists o'; split; [reflexivity|exact E2]|].
-  destruct (s_last_bcast s1) as [[]|]; cbn [with_ctl or_iin r_fn r_size r_ctl r_iin2]; repeat split; eauto.
-Qed.
-
-Lemma write_unsolicited_spec cfg s r s1 r2 o :
-  write_unsolicited cfg s r = (s1, r2, o) ->
-  same_core s s1 /\
-  (exists pre, o = pre ++ [OTx (o_master cfg) (response_bytes r2 (s_unsol_buf s1))] /\ Forall no_tx pre) /\
-  r_fn r2 = r_fn r /\ r_size r2 = r_size r /\ r_ctl r2 = r_ctl r.
-Proof.
-  unfold write_unsolicited. destruct (response_iin s) as [[s' iin] o'] eqn:E.
-  apply response_iin_spec in E. destruct E as [E1 E2].
-  intros H. inversion H; subst; clear H.
-  split; [exact E1|]. split; [exists o'; split; [reflexivity|exact E2]|].
-  cbn [or_iin r_fn r_size r_ctl]. auto.
-Qed.
-
-(* ---------- the non-READ handlers ------------------------------------------------------------ *)
-
-Lemma write_iin_bits_spec bits : forall s s1 v o,
-  write_iin_bits s bits = (s1, v, o) -> same_core s s1 /\ Forall no_tx o.
-Proof.
-  induction bits as [|[idx value] rest IH]; intros s s1 v o H; cbn [write_iin_bits] in H.
-  - inversion H; subst. split; [apply sc_refl | constructor].
-  - destruct (idx =? 7); [destruct value|].
-    + destruct (write_iin_bits s rest) as [[s' v'] o'] eqn:E. apply IH in E. inversion H; subst. exact E.
-    + destruct (write_iin_bits (upd_restart s false) rest) as [[s' v'] o'] eqn:E. apply IH in E.
-      inversion H; subst. destruct E as [E1 E2]. split; [eauto using sc_trans with sc | notx2].
-    + destruct (write_iin_bits s rest) as [[s' v'] o'] eqn:E. apply IH in E. inversion H; subst. exact E.
-Qed.
-
-Lemma write_header_spec cfg s h s1 v o :
-  write_header cfg s h = (s1, v, o) -> same_core s s1 /\ Forall no_tx o.
-Proof.
-  unfold write_header. destruct h as [bits|[t|]|[t|]|c| |a b|x| | |g v0 p items|];
-    try (intros H; inversion H; subst; split; [apply sc_refl | notx2]; fail).
-  - apply write_iin_bits_spec.
-  - destruct (s_last_recorded s) as [t0|]; [destruct (max_timestamp - t <? Z.to_N (s_now s - t0))|];
-      intros H; inversion H; subst; (split; [eauto with sc | notx2]).
-Qed.
-
-Lemma handle_write_headers_spec cfg hdrs : forall s s1 v o,
-  handle_write_headers cfg s hdrs = (s1, v, o) -> same_core s s1 /\ Forall no_tx o.
-Proof.
-  induction hdrs as [|h rest IH]; intros s s1 v o H; cbn [handle_write_headers] in H.
-  - inversion H; subst. split; [apply sc_refl | constructor].
-  - destruct (write_header cfg s h) as [[s' v1] o1] eqn:E1. apply write_header_spec in E1.
-    destruct (handle_write_headers cfg s' rest) as [[s'' v2] o2] eqn:E2. apply IH in E2.
-    inversion H; subst. destruct E1, E2. split; [eauto using sc_trans | notx2].
-Qed.
-
-Lemma freeze_header_notx cfg ft t i h : Forall no_tx (snd (freeze_header cfg ft t i h)).
-Proof. destruct h; cbn [freeze_header snd]; notx2. Qed.
-
-Lemma handle_freeze_notx cfg ft hdrs : Forall no_tx (snd (handle_freeze cfg ft hdrs)).
-Proof.
-  induction hdrs as [|h rest IH]; cbn [handle_freeze snd]; [constructor|].
-  pose proof (freeze_header_notx cfg ft 0 0 h) as Hh.
-  destruct (freeze_header cfg ft 0 0 h) as [v1 o1]. destruct (handle_freeze cfg ft rest) as [v2 o2].
-  cbn [snd] in *. notx2.
-Qed.
-
-Lemma handle_freeze_at_time_notx cfg hdrs : forall timing, Forall no_tx (snd (handle_freeze_at_time cfg timing hdrs)).
-Proof.
-  induction hdrs as [|h rest IH]; intros timing; cbn [handle_freeze_at_time snd]; [constructor|].
-  assert (Hgen : Forall no_tx (snd (match timing with
-      | None => let '(v, o) := handle_freeze_at_time cfg timing rest in (N.lor iin2_param v, o)
-      | Some (t, i) => let '(v1, o1) := freeze_header cfg 2 t i h in
-                       let '(v2, o2) := handle_freeze_at_time cfg timing rest in (N.lor v1 v2, o1 ++ o2)
-      end))).
-  { destruct timing as [[t i]|].
-    - pose proof (freeze_header_notx cfg 2 t i h) as Hh. pose proof (IH (Some (t, i))) as Hr.
-      destruct (freeze_header cfg 2 t i h) as [v1 o1].
-      destruct (handle_freeze_at_time cfg (Some (t, i)) rest) as [v2 o2]. cbn [snd] in *. notx2.
-    - pose proof (IH None) as Hr. destruct (handle_freeze_at_time cfg None rest) as [v2 o2]. exact Hr. }
-  destruct h as [bits|t0|t0|c| |a b|[x|]| | |g v0 p items|]; try exact Hgen.
-  - apply IH.
-  - pose proof (IH timing) as Hr. destruct (handle_freeze_at_time cfg timing rest) as [v2 o2]. exact Hr.
-Qed.
-
-Lemma enable_disable_spec cfg s en seq hdrs s1 r :
-  enable_disable cfg s en seq hdrs = (s1, r) -> same_core s s1 /\ exists v, r = empty_solicited seq v.
-Proof.
-  unfold enable_disable. destruct (negb (o_unsol cfg)).
-  - intros H; inversion H; subst. split; [apply sc_refl | eauto].
-  - match goal with |- context [fold_left ?f hdrs ?a] => destruct (fold_left f hdrs a) as [e v] end.
-    intros H; inversion H; subst. split; [eauto with sc | eauto].
-Qed.
-
-Lemma restart_response_spec seq s d s1 r :
-  restart_response seq s d = (s1, r) ->
-  same_core s s1 /\ r_ctl r = ctl_byte true true false false seq /\ r_fn r = fn_response /\
-  (r_size r = 0 \/ r_size r = 10)%nat.
-Proof.
-  unfold restart_response. destruct d as [[ms v]|]; intros H; inversion H; subst; cbn; eauto 6 with sc.
-Qed.
-
-Lemma ctl_one_header_notx s cfg cap mode g v prefix hdr_start items : forall written n num started w ok cbs st num' started',
-  ctl_one_header s cfg cap mode g v prefix written n hdr_start num started items = (w, ok, cbs, st, num', started') ->
-  Forall no_tx cbs.
-Proof.
-  induction items as [|[idx obj] rest IH]; intros written n num started w ok cbs st num' started' H;
-    cbn [ctl_one_header] in H.
-  - inversion H; subst. constructor.
-  - destruct (item_status s cfg mode num) as [st0 consulted].
-    destruct (echo_items cap g v prefix written n hdr_start [(idx, replace_status obj st0)]) as [w1 ok1].
-    destruct ok1.
-    + destruct (ctl_one_header s cfg cap mode g v prefix w1 (n + 1) hdr_start (num + 1) (started || consulted) rest)
-        as [[[[[w2 ok2] cbs2] st2] num2] started2] eqn:E. apply IH in E.
-      inversion H; subst. notx2.
-    + inversion H; subst. notx2.
-Qed.
-
-Lemma ctl_headers_notx s cfg cap mode hdrs : forall written num started w ok cbs st started',
-  ctl_headers s cfg cap mode written num started hdrs = (w, ok, cbs, st, started') -> Forall no_tx cbs.
-Proof.
-  induction hdrs as [|h rest IH]; intros written num started w ok cbs st started' H; cbn [ctl_headers] in H.
-  - inversion H; subst. constructor.
-  - destruct h as [bits|t0|t0|c| |a b|x| | |g v p items|]; try (apply IH in H; exact H).
-    destruct (ctl_one_header s cfg cap mode g v p written 0 (length written) num started items)
-      as [[[[[w1 ok1] cbs1] st1] num1] started1] eqn:E1. apply ctl_one_header_notx in E1.
-    destruct ok1.
-    + destruct (ctl_headers s cfg cap mode w1 num1 started1 rest) as [[[[w2 ok2] cbs2] st2] started2] eqn:E2.
-      apply IH in E2. inversion H; subst. notx2.
-    + inversion H; subst. exact E1.
-Qed.
-
-Lemma noack_items_notx s cfg g v items : forall num started cbs num' started',
-  noack_items s cfg g v num started items = (cbs, num', started') -> Forall no_tx cbs.
-Proof.
-  induction items as [|[idx obj] rest IH]; intros num started cbs num' started' H; cbn [noack_items] in H.
-  - inversion H; subst. constructor.
-  - match type of H with context [noack_items s cfg g v ?a ?b rest] =>
-      destruct (noack_items s cfg g v a b rest) as [[cbs2 num2] started2] eqn:E end.
-    apply IH in E. inversion H; subst. notx2.
-Qed.
-
-Lemma noack_headers_notx s cfg hdrs : forall num started cbs started',
-  noack_headers s cfg num started hdrs = (cbs, started') -> Forall no_tx cbs.
-Proof.
-  induction hdrs as [|h rest IH]; intros num started cbs started' H; cbn [noack_headers] in H.
-  - inversion H; subst. constructor.
-  - destruct h as [bits|t0|t0|c| |a b|x| | |g v p items|]; try (apply IH in H; exact H).
-    destruct (noack_items s cfg g v num started items) as [[cbs1 num1] started1] eqn:E1.
-    apply noack_items_notx in E1.
-    destruct (noack_headers s cfg num1 started1 rest) as [cbs2 started2] eqn:E2. apply IH in E2.
-    inversion H; subst. notx2.
-Qed.
-
-(* the shape of a freshly made solicited response to request `seq` *)
-Definition fresh_resp (seq : N) (r : response) : Prop :=
-  r_ctl r = ctl_byte true true false false seq /\ r_fn r = fn_response.
-
-Lemma fresh_empty seq v : fresh_resp seq (empty_solicited seq v).
-Proof. split; reflexivity. Qed.
-
-Lemma fresh_control seq st n : fresh_resp seq (control_response seq st n).
-Proof. split; reflexivity. Qed.
-
-Lemma fresh_with_iin2 seq r v : fresh_resp seq r -> fresh_resp seq (with_iin2 r v).
-Proof. intros [A B]. split; assumption. Qed.
-
-Lemma handle_controls_spec cfg s fn seq fid bytes hdrs s1 r o :
-  handle_controls cfg s fn seq fid bytes hdrs = (s1, r, o) ->
-  same_core s s1 /\ Forall no_tx o /\ (forall r0, r = Some r0 -> fresh_resp seq r0).
-Proof.
-  unfold handle_controls. destruct (negb (all_controls hdrs)).
-  { intros H; inversion H; subst. split; [apply sc_refl|]. split; [constructor|].
-    intros r0 Hr. destruct (fn =? fn_direct_operate_nr); inversion Hr; subst. apply fresh_empty. }
-  destruct (fn =? fn_direct_operate_nr).
-  { destruct (noack_headers s cfg 0 false hdrs) as [cbs started] eqn:E. apply noack_headers_notx in E.
-    intros H; inversion H; subst. split; [apply sc_refl|]. split; [notx2|]. discriminate. }
-  destruct (fn =? fn_select).
-  { destruct (ctl_headers s cfg (o_sol_tx cfg - 4) CmSelect [] 0 false hdrs) as [[[[echo ok] cbs] st] started] eqn:E.
-    apply ctl_headers_notx in E. intros H; inversion H; subst. split.
-    - destruct (ok && (st =? 0)); eauto using sc_trans with sc.
-    - split; [notx2|]. intros r0 Hr; inversion Hr; subst. apply fresh_control. }
-  destruct (fn =? fn_direct_operate).
-  { destruct (ctl_headers s cfg (o_sol_tx cfg - 4) (CmOperate OpDo) [] 0 false hdrs) as [[[[echo ok] cbs] st] started] eqn:E.
-    apply ctl_headers_notx in E. intros H; inversion H; subst. split; [eauto with sc|].
-    split; [notx2|]. intros r0 Hr; inversion Hr; subst. apply fresh_control. }
-  match goal with |- context [match ?v with Some _ => _ | None => _ end = _] => destruct v as [status|] end.
-  - destruct (ctl_headers s cfg (o_sol_tx cfg - 4) (CmStatus status) [] 0 false hdrs) as [[[[echo ok] cbs] st] started] eqn:E.
-    intros H; inversion H; subst. split; [eauto with sc|]. split; [constructor|].
-    intros r0 Hr; inversion Hr; subst. apply fresh_control.
-  - destruct (ctl_headers s cfg (o_sol_tx cfg - 4) (CmOperate OpSbo) [] 0 false hdrs) as [[[[echo ok] cbs] st] started] eqn:E.
-    apply ctl_headers_notx in E. intros H; inversion H; subst. split; [eauto with sc|].
-    split; [notx2|]. intros r0 Hr; inversion Hr; subst. apply fresh_control.
-Qed.
-
-(* handle_non_read with the branch result exposed: `fin` only ORs `extra` into IIN2 *)
-Definition hnr_body (cfg : ocfg) (s : ostate) (fn seq frame_id : N) (bytes : list N) (hdrs : list whdr)
-  : ostate * option response * list oobs :=
-    if fn =? fn_write then
-      let '(s1, v, o) := handle_write_headers cfg s hdrs in (s1, Some (empty_solicited seq v), o)
-    else if fn =? fn_delay_measure then
-      let body := count_of_one 52 2 (o_delay_ms cfg) in
-      (upd_sol_buf s (buf_set (s_sol_buf s) body),
-       Some {| r_ctl := ctl_byte true true false false seq; r_fn := fn_response; r_iin1 := 0; r_iin2 := 0; r_size := 10 |}, [])
-    else if fn =? fn_record_time then
-      (upd_last_recorded s (Some (s_now s)), Some (empty_solicited seq 0), [])
-    else if fn =? fn_cold_restart then
-      let '(s1, r) := restart_response seq s (o_cold cfg) in (s1, Some r, [OCb CbColdRestart])
-    else if fn =? fn_warm_restart then
-      let '(s1, r) := restart_response seq s (o_warm cfg) in (s1, Some r, [OCb CbWarmRestart])
-    else if (fn =? fn_select) || (fn =? fn_operate) || (fn =? fn_direct_operate) || (fn =? fn_direct_operate_nr) then
-      handle_controls cfg s fn seq frame_id bytes hdrs
-    else if fn =? fn_immediate_freeze then
-      let '(v, o) := handle_freeze cfg 0 hdrs in (s, Some (empty_solicited seq v), o)
-    else if fn =? fn_immediate_freeze_nr then
-      let '(v, o) := handle_freeze cfg 0 hdrs in (s, None, o)
-    else if fn =? fn_freeze_clear then
-      let '(v, o) := handle_freeze cfg 1 hdrs in (s, Some (empty_solicited seq v), o)
-    else if fn =? fn_freeze_clear_nr then
-      let '(v, o) := handle_freeze cfg 1 hdrs in (s, None, o)
-    else if fn =? fn_freeze_at_time then
-      let '(v, o) := handle_freeze_at_time cfg None hdrs in (s, Some (empty_solicited seq v), o)
-    else if fn =? fn_freeze_at_time_nr then
-      let '(v, o) := handle_freeze_at_time cfg None hdrs in (s, None, o)
-    else if fn =? fn_enable_unsol then
-      let '(s1, r) := enable_disable cfg s true seq hdrs in (s1, Some r, [])
-    else if fn =? fn_disable_unsol then
-      let '(s1, r) := enable_disable cfg s false seq hdrs in (s1, Some r, [])
-    else (s, Some (empty_solicited seq iin2_no_func), []).
-
-Definition hnr_extra (fn : N) (hdrs : list whdr) : N :=
-  if objects_allowed fn then 0 else match hdrs with [] => 0 | _ => iin2_param end.
-
-Lemma handle_non_read_eq cfg s fn seq fid bytes hdrs :
-  handle_non_read cfg s fn seq fid bytes hdrs =
-  let '(s1, r, o) := hnr_body cfg s fn seq fid bytes hdrs in
-  (s1, match r with Some r => Some (with_iin2 r (hnr_extra fn hdrs)) | None => None end, o).
+Lemma response_bytes_nth0 r buf : nth 0 (response_bytes r buf) 0 = r_ctl r.
+Proof. reflexivity. Qed.
+Lemma response_bytes_nth1 r buf : nth 1 (response_bytes r buf) 0 = r_fn r.
+Proof. reflexivity. Qed.
+Lemma response_bytes_nth3 r buf : nth 3 (response_bytes r buf) 0 = r_iin2 r.
 Proof. reflexivity. Qed.
 
-Lemma hnr_body_spec cfg s fn seq fid bytes hdrs s1 r o :
-  hnr_body cfg s fn seq fid bytes hdrs = (s1, r, o) ->
-  same_core s s1 /\ Forall no_tx o /\ (forall r0, r = Some r0 -> fresh_resp seq r0).
+Definition tx_shape_ok (cfg : ocfg) (dest : N) (bytes : list N) : Prop :=
+  (4 <= length bytes)%nat /\
+  (nth 1 bytes 0 = 129 \/ nth 1 bytes 0 = 130) /\
+  (nth 1 bytes 0 = 129 -> N.testbit (nth 0 bytes 0) 4 = false) /\
+  (nth 1 bytes 0 = 130 -> 240 <= nth 0 bytes 0 < 256 /\ dest = o_master cfg).
+
+Lemma tx_ok_shape cfg szok dest bytes : tx_ok cfg szok dest bytes -> tx_shape_ok cfg dest bytes.
 Proof.
-  unfold hnr_body.
-  repeat match goal with
-         | |- (if ?c then _ else _) = _ -> _ => destruct c
-         end.
-  - destruct (handle_write_headers cfg s hdrs) as [[s' v] o'] eqn:E. apply handle_write_headers_spec in E.
-    destruct E as [E1 E2]. intros H; inversion H; subst. split; [exact E1|]. split; [exact E2|].
-    intros r0 Hr; inversion Hr; subst. apply fresh_empty.
-  - intros H; inversion H; subst. split; [eauto with sc|]. split; [constructor|].
-    intros r0 Hr; inversion Hr; subst. split; reflexivity.
-  - intros H; inversion H; subst. split; [eauto with sc|]. split; [constructor|].
-    intros r0 Hr; inversion Hr; subst. split; reflexivity.
-  - destruct (restart_response seq s (o_cold cfg)) as [s' r'] eqn:E. apply restart_response_spec in E.
-    destruct E as (E1 & E2 & E3 & _). intros H; inversion H; subst. split; [exact E1|]. split; [notx2|].
-    intros r0 Hr; inversion Hr; subst. split; assumption.
-  - destruct (restart_response seq s (o_warm cfg)) as [s' r'] eqn:E. apply restart_response_spec in E.
-    destruct E as (E1 & E2 & E3 & _). intros H; inversion H; subst. split; [exact E1|]. split; [notx2|].
-    intros r0 Hr; inversion Hr; subst. split; assumption.
-  - apply handle_controls_spec.
-  - pose proof (handle_freeze_notx cfg 0 hdrs) as Hn. destruct (handle_freeze cfg 0 hdrs) as [v o'].
-    intros H; inversion H; subst. split; [apply sc_refl|]. split; [exact Hn|].
-    intros r0 Hr; inversion Hr; subst. apply fresh_empty.
-  - pose proof (handle_freeze_notx cfg 0 hdrs) as Hn. destruct (handle_freeze cfg 0 hdrs) as [v o'].
-    intros H; inversion H; subst. split; [apply sc_refl|]. split; [exact Hn|]. discriminate.
-  - pose proof (handle_freeze_notx cfg 1 hdrs) as Hn. destruct (handle_freeze cfg 1 hdrs) as [v o'].
-    intros H; inversion H; subst. split; [apply sc_refl|]. split; [exact Hn|].
-    intros r0 Hr; inversion Hr; subst. apply fresh_empty.
-  - pose proof (handle_freeze_notx cfg 1 hdrs) as Hn. destruct (handle_freeze cfg 1 hdrs) as [v o'].
-    intros H; inversion H; subst. split; [apply sc_refl|]. split; [exact Hn|]. discriminate.
-  - pose proof (handle_freeze_at_time_notx cfg hdrs None) as Hn. destruct (handle_freeze_at_time cfg None hdrs) as [v o'].
-    intros H; inversion H; subst. split; [apply sc_refl|]. split; [exact Hn|].
-    intros r0 Hr; inversion Hr; subst. apply fresh_empty.
-  - pose proof (handle_freeze_at_time_notx cfg hdrs None) as Hn. destruct (handle_freeze_at_time cfg None hdrs) as [v o'].
-    intros H; inversion H; subst. split; [apply sc_refl|]. split; [exact Hn|]. discriminate.
-  - destruct (enable_disable cfg s true seq hdrs) as [s' r'] eqn:E. apply enable_disable_spec in E.
-    destruct E as [E1 [v E2]]. intros H; inversion H; subst. split; [exact E1|]. split; [constructor|].
-    intros r0 Hr; inversion Hr; subst. apply fresh_empty.
-  - destruct (enable_disable cfg s false seq hdrs) as [s' r'] eqn:E. apply enable_disable_spec in E.
-    destruct E as [E1 [v E2]]. intros H; inversion H; subst. split; [exact E1|]. split; [constructor|].
-    intros r0 Hr; inversion Hr; subst. apply fresh_empty.
-  - intros H; inversion H; subst. split; [apply sc_refl|]. split; [constructor|].
-    intros r0 Hr; inversion Hr; subst. apply fresh_empty.
+  intros (r & buf & Hb & Hr). subst bytes. unfold tx_shape_ok.
+  rewrite response_bytes_nth0, response_bytes_nth1.
+  split; [apply response_bytes_length|].
+  destruct Hr as [(A & B & _)|[(A & q & B) C]]; rewrite A.
+  - split; [left; reflexivity|]. split; [intros _; exact B|]. unfold fn_response. intros H; discriminate.
+  - split; [right; reflexivity|]. split; [unfold fn_unsol_response; intros H; discriminate|].
+    intros _. rewrite B. split; [|exact C]. split; [apply ctl_byte_unsol_ge|apply ctl_byte_lt].
 Qed.
 
-Lemma handle_non_read_spec cfg s fn seq fid bytes hdrs s1 r o :
-  handle_non_read cfg s fn seq fid bytes hdrs = (s1, r, o) ->
-  same_core s s1 /\ Forall no_tx o /\ (forall r0, r = Some r0 -> fresh_resp seq r0).
+Definition szany (_ : nat) : Prop := True.
+
+Lemma Forall_aok_any a : Forall (aok szany) a.
+Proof. apply Forall_forall. intros [] _; exact I. Qed.
+
+(* 1. every fragment transmitted in any step from any reachable state (and at start-up) *)
+Theorem tx_shape : forall cfg s ev answers dest bytes,
+  Reach any_answers cfg s ->
+  In (OTx dest bytes) (snd (ostep cfg s ev answers)) -> tx_shape_ok cfg dest bytes.
 Proof.
-  rewrite handle_non_read_eq. destruct (hnr_body cfg s fn seq fid bytes hdrs) as [[s' r'] o'] eqn:E.
-  apply hnr_body_spec in E. destruct E as (E1 & E2 & E3).
-  intros H; inversion H; subst. split; [exact E1|]. split; [exact E2|].
-  intros r0 Hr. destruct r' as [r'|]; inversion Hr; subst. apply fresh_with_iin2. auto.
+  intros cfg s ev answers dest bytes HR Hin.
+  assert (HInv : Inv szany s).
+  { eapply Reach_Inv; [| |intros a _; apply Forall_aok_any|exact HR]; intros; exact I. }
+  destruct (ostep cfg s ev answers) as [s' o] eqn:E.
+  apply (ostep_IA cfg szany) in E; [|intros; exact I|intros; exact I|exact HInv|apply Forall_aok_any].
+  destruct E as [_ E]. rewrite Forall_forall in E. apply E in Hin. cbn in Hin. eapply tx_ok_shape; exact Hin.
 Qed.
 
-(* ---------- the control echo (PrefixWriter) ---------------------------------------------------- *)
-(* ---------- definitions (to be moved to a shared file) ------------------------------------------ *)
-
-Definition item_bytes (prefix : N) (it : N * list N) : list N := index_bytes prefix (fst it) ++ snd it.
-Definition group_bytes (g v prefix : N) (items : list (N * list N)) : list N :=
-  [g; v; qualifier_of prefix] ++ count_bytes prefix (N.of_nat (length items)) ++ concat (map (item_bytes prefix) items).
-Record egroup := { eg_g : N; eg_v : N; eg_prefix : N; eg_items : list (N * list N) }.
-Definition egroup_bytes (e : egroup) : list N := group_bytes (eg_g e) (eg_v e) (eg_prefix e) (eg_items e).
-Definition groups_bytes (gs : list egroup) : list N := concat (map egroup_bytes gs).
-(* the control headers of a request that carry at least one item *)
-Fixpoint req_groups (hdrs : list whdr) : list egroup :=
-  match hdrs with
-  | [] => []
-  | WCtl g v prefix [] :: rest => req_groups rest
-  | WCtl g v prefix items :: rest => {| eg_g := g; eg_v := v; eg_prefix := prefix; eg_items := items |} :: req_groups rest
-  | _ :: rest => req_groups rest
-  end.
-(* e echoes (a prefix of, when cut = true allowed) the request group r: same g, v, prefix, same indices in order, each object is the request's object with its status octet replaced *)
-Definition item_echoes (a b : N * list N) : Prop := fst a = fst b /\ exists st, snd a = replace_status (snd b) st.
-Definition group_echoes (e r : egroup) : Prop :=
-  eg_g e = eg_g r /\ eg_v e = eg_v r /\ eg_prefix e = eg_prefix r /\ eg_items e <> [] /\
-  Forall2 item_echoes (eg_items e) (firstn (length (eg_items e)) (eg_items r)).
-
-(* ---------- list helpers ------------------------------------------------------------------------ *)
-
-Lemma firstn_len_app (A B : list N) (k : nat) : k = length A -> firstn k (A ++ B) = A.
+Theorem tx_shape_start : forall cfg sel op iin a0 dest bytes,
+  In (OTx dest bytes) (snd (ostart cfg sel op iin a0)) -> tx_shape_ok cfg dest bytes.
 Proof.
-  intros ->. induction A as [|a A IH]; cbn [length app firstn].
-  - reflexivity.
-  - now rewrite IH.
+  intros cfg sel op iin a0 dest bytes Hin.
+  destruct (ostart cfg sel op iin a0) as [s' o] eqn:E.
+  apply (ostart_IA cfg szany) in E; [|intros; exact I|intros; exact I|apply Forall_aok_any].
+  destruct E as [_ E]. rewrite Forall_forall in E. apply E in Hin. cbn in Hin. eapply tx_ok_shape; exact Hin.
 Qed.
 
-Lemma skipn_len_app (A B : list N) (k : nat) : k = length A -> skipn k (A ++ B) = B.
+(* 6. size of solicited fragments, when the database respects the cursor it is given *)
+Definition answer_fits (cfg : ocfg) (a : answer) : Prop :=
+  match a with AWrite _ _ body => (length body <= o_sol_tx cfg - 4)%nat | _ => True end.
+Definition answers_fit (cfg : ocfg) (a : list answer) : Prop := Forall (answer_fits cfg) a.
+
+Definition szfit (cfg : ocfg) (n : nat) : Prop := (n <= o_sol_tx cfg)%nat.
+
+Lemma answers_fit_aok cfg a : (10 <= o_sol_tx cfg)%nat -> answers_fit cfg a -> Forall (aok (szfit cfg)) a.
 Proof.
-  intros ->. induction A as [|a A IH]; cbn [length app skipn].
-  - reflexivity.
-  - exact IH.
+  intros H10. apply Forall_impl. intros [] H; try exact I. unfold aok, szfit. cbn in H. lia.
 Qed.
 
-Lemma count_bytes_length (p n : N) : length (count_bytes p n) = length (count_bytes p 0).
-Proof. unfold count_bytes. destruct (p =? 1); reflexivity. Qed.
-
-(* the patch rewrites exactly the count field *)
-Lemma patch_count (pre : list N) (g v q : N) (c0 c1 tl : list N) (hs k : nat) :
-  hs = length pre -> k = length c0 ->
-  firstn (hs + 3) (pre ++ [g; v; q] ++ c0 ++ tl) ++ c1 ++ skipn (hs + 3 + k) (pre ++ [g; v; q] ++ c0 ++ tl)
-  = pre ++ [g; v; q] ++ c1 ++ tl.
+Lemma tx_ok_fits cfg dest bytes :
+  (4 <= o_sol_tx cfg)%nat -> tx_ok cfg (szfit cfg) dest bytes -> nth 1 bytes 0 = 129 ->
+  (length bytes <= o_sol_tx cfg)%nat.
 Proof.
-  intros Hhs Hk.
-  assert (H1 : firstn (hs + 3) (pre ++ [g; v; q] ++ c0 ++ tl) = pre ++ [g; v; q]).
-  { rewrite (app_assoc pre). apply firstn_len_app. rewrite app_length. cbn [length]. lia. }
-  assert (H2 : skipn (hs + 3 + k) (pre ++ [g; v; q] ++ c0 ++ tl) = tl).
-  { rewrite (app_assoc pre), (app_assoc (pre ++ [g; v; q])). apply skipn_len_app.
-    rewrite !app_length. cbn [length]. lia. }
-  rewrite H1, H2, <- app_assoc. reflexivity.
+  intros H4 (r & buf & Hb & Hr) Hfn. subst bytes. rewrite response_bytes_nth1 in Hfn.
+  destruct Hr as [(A & B & C)|[(A & _) _]].
+  - pose proof (response_bytes_length r buf) as Hl. unfold szfit in C. lia.
+  - rewrite A in Hfn. discriminate.
 Qed.
 
-(* ---------- one item ---------------------------------------------------------------------------- *)
-
-(* bytes of the group being written: nothing until the first item has been written *)
-Definition gb_opt (g v p : N) (its : list (N * list N)) : list N :=
-  match its with [] => [] | _ => group_bytes g v p its end.
-
-Lemma gb_opt_snoc g v p its it : gb_opt g v p (its ++ [it]) = group_bytes g v p (its ++ [it]).
-Proof. destruct its; reflexivity. Qed.
-
-Lemma group_bytes_snoc g v p its it :
-  group_bytes g v p (its ++ [it]) =
-  [g; v; qualifier_of p] ++ count_bytes p (N.of_nat (length its) + 1)
-    ++ concat (map (item_bytes p) its) ++ item_bytes p it.
+Theorem fits : forall cfg s ev answers dest bytes,
+  (10 <= o_sol_tx cfg)%nat ->
+  Reach (answers_fit cfg) cfg s -> answers_fit cfg answers ->
+  In (OTx dest bytes) (snd (ostep cfg s ev answers)) -> nth 1 bytes 0 = 129 ->
+  (length bytes <= o_sol_tx cfg)%nat.
 Proof.
-  unfold group_bytes. rewrite map_app, concat_app, app_length. cbn [map concat length].
-  rewrite app_nil_r.
-  replace (N.of_nat (length its + 1)) with (N.of_nat (length its) + 1) by lia.
-  reflexivity.
+  intros cfg s ev answers dest bytes H10 HR Hans Hin Hfn.
+  assert (Hs1 : forall n, (n <= 10)%nat -> szfit cfg n) by (unfold szfit; intros; lia).
+  assert (Hs2 : forall n, (n <= o_sol_tx cfg)%nat -> szfit cfg n) by (unfold szfit; intros; lia).
+  assert (HInv : Inv (szfit cfg) s).
+  { eapply Reach_Inv; [exact Hs1|exact Hs2| |exact HR]. intros a Ha. apply answers_fit_aok; assumption. }
+  destruct (ostep cfg s ev answers) as [s' o] eqn:E.
+  apply (ostep_IA cfg (szfit cfg)) in E; [|exact Hs1|exact Hs2|exact HInv|apply answers_fit_aok; assumption].
+  destruct E as [_ E]. rewrite Forall_forall in E. apply E in Hin. cbn in Hin.
+  eapply tx_ok_fits; [lia|exact Hin|exact Hfn].
 Qed.
 
-Lemma echo_items_single_unfold cap g v p written n hs idx obj :
-  echo_items cap g v p written n hs [(idx, obj)] =
-  let attempt := written ++ (if n =? 0 then [g; v; qualifier_of p] ++ count_bytes p 0 else [])
-                         ++ index_bytes p idx ++ obj in
-  if (cap <? length attempt)%nat then (written, false)
-  else (firstn (hs + 3) attempt ++ count_bytes p (n + 1)
-          ++ skipn (hs + 3 + length (count_bytes p 0)) attempt, true).
-Proof. reflexivity. Qed.
+(* ---------- the reader's fragment and the deferred READ ---------------------------------------- *)
 
-Lemma echo_items_single cap g v p pre its idx obj :
-  echo_items cap g v p (pre ++ gb_opt g v p its) (N.of_nat (length its)) (length pre) [(idx, obj)] =
-  if (cap <? length (pre ++ group_bytes g v p (its ++ [(idx, obj)])))%nat
-  then (pre ++ gb_opt g v p its, false)
-  else (pre ++ group_bytes g v p (its ++ [(idx, obj)]), true).
-Proof.
-  rewrite echo_items_single_unfold. cbv zeta.
-  set (T := concat (map (item_bytes p) its) ++ item_bytes p (idx, obj)).
-  assert (Hatt : exists cX, length cX = length (count_bytes p 0) /\
-            (pre ++ gb_opt g v p its)
-              ++ (if N.of_nat (length its) =? 0 then [g; v; qualifier_of p] ++ count_bytes p 0 else [])
-              ++ index_bytes p idx ++ obj
-            = pre ++ [g; v; qualifier_of p] ++ cX ++ T).
-  { destruct its as [|a its].
-    - exists (count_bytes p 0). split; [reflexivity|].
-      subst T. cbn [gb_opt length N.of_nat N.eqb map concat item_bytes fst snd].
-      rewrite !app_nil_r. cbn [app]. reflexivity.
-    - exists (count_bytes p (N.of_nat (length (a :: its)))). split; [apply count_bytes_length|].
-      replace (N.of_nat (length (a :: its)) =? 0) with false
-        by (symmetry; apply N.eqb_neq; cbn [length]; lia).
-      subst T. cbn [gb_opt]. unfold group_bytes, item_bytes at 3. cbn [fst snd].
-      cbn [app]. rewrite <- !app_assoc. cbn [app]. rewrite <- ?app_assoc. reflexivity. }
-  destruct Hatt as [cX [HcX Hatt]].
-  rewrite Hatt.
-  rewrite (patch_count pre g v (qualifier_of p) cX _ T (length pre) _ eq_refl (eq_sym HcX)).
-  rewrite group_bytes_snoc. fold T.
-  replace (length (pre ++ [g; v; qualifier_of p] ++ cX ++ T))
-    with (length (pre ++ [g; v; qualifier_of p] ++ count_bytes p (N.of_nat (length its) + 1) ++ T)).
-  - reflexivity.
-  - rewrite !app_length, HcX, (count_bytes_length p (N.of_nat (length its) + 1)). reflexivity.
-Qed.
+(* At the boundaries of a step the session holds no unprocessed fragment, and a deferred READ exists
+   only while an unsolicited confirmation is awaited.  This needs that the idle loop never runs out
+   of fuel: `need` bounds the number of stage transitions left. *)
+Definition is_unsol_wait (c : control) : bool := match c with CUnsolWait _ _ _ _ => true | _ => false end.
 
-(* ---------- one header -------------------------------------------------------------------------- *)
+Definition J (s : ostate) : Prop :=
+  s_pending s = None /\ (is_unsol_wait (s_control s) = false -> s_deferred s = None).
 
-Lemma ctl_one_header_inv s cfg cap mode g v p pre :
-  forall items its num started w ok cbs st num' started',
-  ctl_one_header s cfg cap mode g v p (pre ++ gb_opt g v p its) (N.of_nat (length its)) (length pre)
-                 num started items = (w, ok, cbs, st, num', started') ->
-  (length (pre ++ gb_opt g v p its) <= cap)%nat ->
-  exists its',
-    w = pre ++ gb_opt g v p (its ++ its') /\
-    (length w <= cap)%nat /\
-    Forall2 item_echoes its' (firstn (length its') items) /\
-    (ok = true -> length its' = length items).
-Proof.
-  induction items as [|[idx obj] rest IH]; intros its num started w ok cbs st num' started' Hrun Hcap.
-  - cbn [ctl_one_header] in Hrun. inversion Hrun; subst.
-    exists []. rewrite app_nil_r. repeat split; auto. constructor.
-  - cbn [ctl_one_header] in Hrun.
-    destruct (item_status s cfg mode num) as [st0 consulted].
-    rewrite echo_items_single in Hrun.
-    destruct (cap <? length (pre ++ group_bytes g v p (its ++ [(idx, replace_status obj st0)])))%nat eqn:Hfit.
-    + cbv beta iota in Hrun. inversion Hrun; subst.
-      exists []. rewrite app_nil_r. repeat split; auto; [constructor | discriminate].
-    + cbv beta iota in Hrun.
-      apply Nat.ltb_ge in Hfit.
-      rewrite <- gb_opt_snoc in Hrun, Hfit.
-      replace (N.of_nat (length its) + 1) with (N.of_nat (length (its ++ [(idx, replace_status obj st0)]))) in Hrun
-        by (rewrite app_length; cbn [length]; lia).
-      destruct (ctl_one_header s cfg cap mode g v p (pre ++ gb_opt g v p (its ++ [(idx, replace_status obj st0)]))
-                  (N.of_nat (length (its ++ [(idx, replace_status obj st0)]))) (length pre) (num + 1)
-                  (started || consulted) rest) as [[[[[w2 ok2] cbs2] st2] num2] started2] eqn:Hrec.
-      inversion Hrun; subst.
-      destruct (IH _ _ _ _ _ _ _ _ _ Hrec Hfit) as [its' [Hw [Hlen [Hech Hok]]]].
-      exists ((idx, replace_status obj st0) :: its').
-      rewrite <- app_assoc in Hw. cbn [app] in Hw.
-      split; [exact Hw|]. split; [exact Hlen|]. split.
-      * cbn [length firstn]. constructor; [|exact Hech].
-        split; [reflexivity|]. exists st0. reflexivity.
-      * intros Hok2. cbn [length]. rewrite (Hok Hok2). reflexivity.
-Qed.
+Definition b2nat (b : bool) : nat := if b then 1 else 0.
+Definition has {A : Type} (o : option A) : bool := match o with Some _ => true | None => false end.
 
-(* ---------- all headers ------------------------------------------------------------------------- *)
+Definition tokens (s : ostate) : nat :=
+  (b2nat (has (s_pending s)) + b2nat (has (s_deferred s)) + b2nat (s_notify s))%nat.
 
-Lemma groups_bytes_snoc gs e : groups_bytes (gs ++ [e]) = groups_bytes gs ++ egroup_bytes e.
-Proof. unfold groups_bytes. rewrite map_app, concat_app. cbn [map concat]. now rewrite app_nil_r. Qed.
+Definition need (st : stage) (s : ostate) : nat :=
+  match st with
+  | St1 => 4 + 4 * (b2nat (has (s_deferred s)) + b2nat (s_notify s))
+  | St2 => 3 + 4 * tokens s
+  | St3 ns => 2 + 4 * (tokens s + b2nat ns)
+  | St4 ns => 1 + 4 * (tokens s + b2nat ns)
+  end%nat.
 
-Lemma ctl_headers_inv s cfg cap mode :
-  forall hdrs gs0 num started echo ok cbs st started',
-  ctl_headers s cfg cap mode (groups_bytes gs0) num started hdrs = (echo, ok, cbs, st, started') ->
-  (length (groups_bytes gs0) <= cap)%nat ->
-  exists gs,
-    echo = groups_bytes (gs0 ++ gs) /\
-    (length echo <= cap)%nat /\
-    Forall2 group_echoes gs (firstn (length gs) (req_groups hdrs)) /\
-    (ok = true -> length gs = length (req_groups hdrs) /\
-                  Forall2 (fun e r => length (eg_items e) = length (eg_items r)) gs (req_groups hdrs)).
-Proof.
-  induction hdrs as [|h rest IH]; intros gs0 num started echo ok cbs st started' Hrun Hcap.
-  - cbn [ctl_headers] in Hrun. inversion Hrun; subst.
-    exists []. rewrite app_nil_r. cbn [length firstn req_groups]. repeat split; auto; constructor.
-  - destruct h as [bits|t|t|c| |a b|x| | |g v p items| ];
-      try (cbn [ctl_headers req_groups] in *; eapply IH; eassumption).
-    cbn [ctl_headers] in Hrun.
-    destruct (ctl_one_header s cfg cap mode g v p (groups_bytes gs0) 0 (length (groups_bytes gs0)) num started items)
-      as [[[[[w1 ok1] cbs1] st1] num1] started1] eqn:Hone.
-    assert (Hone' : ctl_one_header s cfg cap mode g v p (groups_bytes gs0 ++ gb_opt g v p [])
-                      (N.of_nat (length (@nil (N * list N)))) (length (groups_bytes gs0)) num started items
-                    = (w1, ok1, cbs1, st1, num1, started1)).
-    { cbn [gb_opt length N.of_nat]. rewrite app_nil_r. exact Hone. }
-    assert (Hcap' : (length (groups_bytes gs0 ++ gb_opt g v p []) <= cap)%nat).
-    { cbn [gb_opt]. rewrite app_nil_r. exact Hcap. }
-    destruct (ctl_one_header_inv _ _ _ _ _ _ _ _ _ _ _ _ _ _ _ _ _ _ Hone' Hcap')
-      as [its' [Hw1 [Hlen1 [Hech Hok1]]]].
-    cbn [app] in Hw1.
-    destruct its' as [|i0 its'].
-    + (* nothing written for this header *)
-      cbn [gb_opt] in Hw1. rewrite app_nil_r in Hw1. subst w1.
-      destruct ok1.
-      * assert (Hitems : items = []).
-        { specialize (Hok1 eq_refl). destruct items; [reflexivity|discriminate]. }
-        subst items. cbn [req_groups].
-        destruct (ctl_headers s cfg cap mode (groups_bytes gs0) num1 started1 rest)
-          as [[[[w2 ok2] cbs2] st2] started2] eqn:Hrest.
-        inversion Hrun; subst.
-        exact (IH _ _ _ _ _ _ _ _ Hrest Hcap).
-      * inversion Hrun; subst.
-        exists []. rewrite app_nil_r. cbn [length firstn]. split; [reflexivity|]. split; [exact Hcap|]. split; [constructor|discriminate].
-    + (* a group was written *)
-      set (e := {| eg_g := g; eg_v := v; eg_prefix := p; eg_items := i0 :: its' |}).
-      assert (Hw1' : w1 = groups_bytes (gs0 ++ [e])).
-      { rewrite groups_bytes_snoc. exact Hw1. }
-      assert (Hne : exists i items', items = i :: items').
-      { inversion Hech as [|? y ? l' ? ? Hfi]. destruct items as [|i items']; [discriminate|].
-        exists i, items'. reflexivity. }
-      destruct Hne as [i [items' Hitems]].
-      assert (Hreq : req_groups (WCtl g v p items :: rest)
-                     = {| eg_g := g; eg_v := v; eg_prefix := p; eg_items := items |} :: req_groups rest).
-      { subst items. reflexivity. }
-      rewrite Hreq.
-      assert (Hge : group_echoes e {| eg_g := g; eg_v := v; eg_prefix := p; eg_items := items |}).
-      { unfold group_echoes, e. cbn [eg_g eg_v eg_prefix eg_items].
-        repeat split; [discriminate | exact Hech]. }
-      destruct ok1.
-      * destruct (ctl_headers s cfg cap mode w1 num1 started1 rest)
-          as [[[[w2 ok2] cbs2] st2] started2] eqn:Hrest.
-        inversion Hrun; subst echo ok cbs st started'.
-        rewrite Hw1' in Hrest, Hlen1.
-        destruct (IH _ _ _ _ _ _ _ _ Hrest Hlen1) as [gs [Hecho [Hlen [Hfa Hok]]]].
-        exists (e :: gs). rewrite <- app_assoc in Hecho. cbn [app] in Hecho.
-        split; [exact Hecho|]. split; [exact Hlen|]. split.
-        -- cbn [length firstn]. constructor; assumption.
-        -- intros Hok2. destruct (Hok Hok2) as [Hl Hf]. split.
-           ++ cbn [length]. now rewrite Hl.
-           ++ constructor; [|exact Hf]. cbn [eg_items]. unfold e. cbn [eg_items]. exact (Hok1 eq_refl).
-      * inversion Hrun; subst echo ok cbs st started'.
-        exists [e]. split; [exact Hw1'|]. split; [exact Hlen1|]. split.
-        -- cbn [length firstn]. constructor; [exact Hge|constructor].
-        -- discriminate.
-Qed.
-
-(* ---------- main theorem ------------------------------------------------------------------------ *)
-
-Theorem echo_wellformed : forall s cfg cap mode num started hdrs echo ok cbs st started',
-  ctl_headers s cfg cap mode [] num started hdrs = (echo, ok, cbs, st, started') ->
-  exists gs,
-    echo = groups_bytes gs /\
-    (length echo <= cap)%nat /\
-    Forall2 group_echoes gs (firstn (length gs) (req_groups hdrs)) /\
-    (ok = true -> length gs = length (req_groups hdrs) /\
-                  Forall2 (fun e r => length (eg_items e) = length (eg_items r)) gs (req_groups hdrs)).
-Proof.
-  intros s cfg cap mode num started hdrs echo ok cbs st started' Hrun.
-  apply (ctl_headers_inv s cfg cap mode hdrs [] num started echo ok cbs st started' Hrun).
-  cbn [groups_bytes map concat length]. lia.
-Qed.
-
-Lemma ctl_headers_length : forall s cfg cap mode num started hdrs echo ok cbs st started',
-  ctl_headers s cfg cap mode [] num started hdrs = (echo, ok, cbs, st, started') -> (length echo <= cap)%nat.
-Proof.
-  intros s cfg cap mode num started hdrs echo ok cbs st started' Hrun.
-  destruct (echo_wellformed _ _ _ _ _ _ _ _ _ _ _ _ Hrun) as [gs [_ [Hlen _]]]. exact Hlen.
-Qed.
-
-
-(* a truncated echo: cap = 20, the second header is cut after its first item (its count field says 1) *)
-Example echo_truncated_example : forall s cfg,
-  ctl_headers s cfg 20 (CmStatus 4) [] 0 false
-    [WCtl 12 1 1 [(3, [1; 1; 0])]; WCtl 12 1 2 [(5, [2; 2; 0]); (6, [3; 3; 0])]]
-  = ([12; 1; 23; 1; 3; 1; 1; 4;   12; 1; 40; 1; 0; 5; 0; 2; 2; 4], false, [], 4, false).
-Proof. intros s cfg. vm_compute. reflexivity. Qed.
-
-
-(* ---------- READ ------------------------------------------------------------------------------- *)
-
-Lemma ask_write_spec s s1 x o : ask_write s = (s1, x, o) -> same_core s s1 /\ Forall no_tx o.
-Proof.
-  unfold ask_write. destruct (s_answers s) as [|[] rest] eqn:Ea; intros H; inversion H; subst; clear H;
-    (split; [eauto with sc | notx2]).
-Qed.
-
-(* the body written by the database is the body of the answer consumed (or empty) *)
-Lemma ask_write_body s s1 c e b o :
-  ask_write s = (s1, (c, e, b), o) ->
-  (exists rest, s_answers s = AWrite c e b :: rest) \/ b = [].
-Proof.
-  unfold ask_write. destruct (s_answers s) as [|[] rest] eqn:Ea; intros H; inversion H; subst; eauto.
-Qed.
-
-Lemma format_read_response_spec s fir seq iin2 s2 r se o :
-  format_read_response s fir seq iin2 = (s2, r, se, o) ->
-  same_core s s2 /\ Forall no_tx o /\
-  r_fn r = fn_response /\ r_iin2 r = iin2 /\
-  (exists fin con, r_ctl r = ctl_byte fir fin con false seq /\
-     se = (if con then Some {| se_ecsn := seq; se_fin := fin |} else None)) /\
-  (exists c e b, (r_size r = 4 + length b)%nat /\ ((exists rest, s_answers s = AWrite c e b :: rest) \/ b = [])).
-Proof.
-  unfold format_read_response. destruct (ask_write s) as [[s1 [[c e] b]] o1] eqn:E.
-  pose proof (ask_write_body _ _ _ _ _ _ E) as Hb. apply ask_write_spec in E. destruct E as [E1 E2].
-  intros H; inversion H; subst; clear H. cbn [r_fn r_iin2 r_ctl r_size].
-  split; [eauto using sc_trans with sc|]. split; [exact E2|]. split; [reflexivity|]. split; [reflexivity|].
-  split; [exists c, (e || negb c); split; reflexivity|]. exists c, e, b. split; [reflexivity|exact Hb].
-Qed.
-
-Lemma format_first_read_response_spec s seq s2 r se o :
-  format_first_read_response s seq = (s2, r, se, o) ->
-  same_core s s2 /\ Forall no_tx o /\
-  r_fn r = fn_response /\
-  (exists fin con, r_ctl r = ctl_byte true fin con false seq /\
-     se = (if con then Some {| se_ecsn := seq; se_fin := fin |} else None)) /\
-  (exists c e b, (r_size r = 4 + length b)%nat /\ (In (AWrite c e b) (s_answers s) \/ b = [])).
-Proof.
-  unfold format_first_read_response. destruct (ask_iin2 s DbSelect) as [[s1 v] o1] eqn:E1.
-  apply ask_iin2_spec in E1. destruct E1 as [A1 A2].
-  destruct (format_read_response s1 true seq v) as [[[s2' r'] se'] o2] eqn:E2.
-  apply format_read_response_spec in E2. destruct E2 as (B1 & B2 & B3 & _ & B4 & (c & e & b & B5 & B6)).
-  intros H; inversion H; subst; clear H.
-  split; [eauto using sc_trans|]. split; [notx2|]. split; [exact B3|]. split; [exact B4|].
-  exists c, e, b. split; [exact B5|]. destruct B6 as [[rest B6]|B6]; [left|right; exact B6].
-  destruct A1 as (_ & _ & _ & _ & _ & _ & _ & _ & _ & _ & _ & _ & _ & [pre Hp]).
-  rewrite Hp, B6. apply in_or_app. right. left. reflexivity.
-Qed.
-
-(* ---------- handle_one_request_from_idle ------------------------------------------------------- *)
-
-(* the fields a request handler changes on top of same_core: s_control and s_last *)
-Definition same_aux (s s' : ostate) : Prop :=
-  s_now s' = s_now s /\ s_unsol s' = s_unsol s /\
-  s_unsol_seq s' = s_unsol_seq s /\ s_deferred s' = s_deferred s /\ s_unsol_buf s' = s_unsol_buf s /\
-  s_pending s' = s_pending s /\ s_frame_id s' = s_frame_id s /\ s_notify s' = s_notify s /\
-  s_sel_status s' = s_sel_status s /\ s_op_status s' = s_op_status s /\ s_app_iin s' = s_app_iin s /\
-  ans_suffix s s'.
-
-Lemma sa_of_sc s s' : same_core s s' -> same_aux s s'.
-Proof. unfold same_core, same_aux. intuition. Qed.
-
-Lemma sa_refl s : same_aux s s.
-Proof. apply sa_of_sc, sc_refl. Qed.
-
-Lemma sa_trans s1 s2 s3 : same_aux s1 s2 -> same_aux s2 s3 -> same_aux s1 s3.
-Proof.
-  unfold same_aux, ans_suffix.
-  intros (A1 & A2 & A3 & A4 & A5 & A6 & A7 & A8 & A9 & A10 & A11 & [p1 A14])
-         (B1 & B2 & B3 & B4 & B5 & B6 & B7 & B8 & B9 & B10 & B11 & [p2 B14]).
-  repeat split; try congruence.
-  exists (p1 ++ p2). rewrite A14, B14, app_assoc. reflexivity.
-Qed.
-
-Lemma sa_upd_last s l : same_aux s (upd_last s l).
-Proof. unfold same_aux, ans_suffix; cbn; repeat split; exists []; reflexivity. Qed.
-Lemma sa_upd_control s c : same_aux s (upd_control s c).
-Proof. unfold same_aux, ans_suffix; cbn; repeat split; exists []; reflexivity. Qed.
-
-(* r' is r as transmitted by write_solicited *)
-Definition sent_of (r r' : response) : Prop :=
-  r_fn r' = r_fn r /\ r_size r' = r_size r /\ (r_ctl r' = r_ctl r \/ r_ctl r' = set_con (r_ctl r)) /\
-  (exists x, r_iin2 r' = N.lor (r_iin2 r) x).
-
-Lemma sent_of_seq r r' : sent_of r r' -> ctl_seq (r_ctl r') = ctl_seq (r_ctl r).
-Proof. intros (_ & _ & [H|H] & _); rewrite H; [reflexivity|apply set_con_seq]. Qed.
-Lemma sent_of_uns r r' : sent_of r r' -> ctl_uns (r_ctl r') = ctl_uns (r_ctl r).
-Proof. intros (_ & _ & [H|H] & _); rewrite H; [reflexivity|apply set_con_uns]. Qed.
-Lemma sent_of_fir r r' : sent_of r r' -> N.testbit (r_ctl r') 7 = N.testbit (r_ctl r) 7.
-Proof. intros (_ & _ & [H|H] & _); rewrite H; [reflexivity|apply set_con_fir]. Qed.
-
-Definition hfi_finish (cfg : ocfg) (from seq : N) (bytes : list N) (fn : N) (s1 : ostate)
-           (resp : option response) (se : option series) (repeat : bool) (o1 : list oobs) : ostate * list oobs :=
-  let o0 := [OInfo (IIdleRequest fn seq)] in
-  match resp with
-  | Some r =>
-      if repeat then
-        let o2 := repeat_solicited s1 from r in
-        let se' := match se with None => if ctl_con (r_ctl r) then Some {| se_ecsn := ctl_seq (r_ctl r); se_fin := true |} else None | x => x end in
-        let s2 := upd_last s1 (mk_last seq bytes (Some r) se') in
-        match se' with
-        | Some x => (upd_control s2 (CSolWait x (confirm_deadline cfg s2) RStep2), o0 ++ o1 ++ o2 ++ [OInfo (IEnterSolWait (se_ecsn x))])
-        | None => (s2, o0 ++ o1 ++ o2)
-        end
-      else
-        let '(s2, r', o2) := write_solicited s1 from r in
-        let se' := match se with None => if ctl_con (r_ctl r') then Some {| se_ecsn := ctl_seq (r_ctl r'); se_fin := true |} else None | x => x end in
-        let s3 := upd_last s2 (mk_last seq bytes (Some r') se') in
-        match se' with
-        | Some x => (upd_control s3 (CSolWait x (confirm_deadline cfg s3) RStep2), o0 ++ o1 ++ o2 ++ [OInfo (IEnterSolWait (se_ecsn x))])
-        | None => (s3, o0 ++ o1 ++ o2)
-        end
-  | None => (upd_last s1 (mk_last seq bytes None se), o0 ++ o1)
+Definition stage_pre (st : stage) (s : ostate) : Prop :=
+  match st with
+  | St3 _ => s_pending s = None \/ s_deferred s = None
+  | _ => s_deferred s = None
   end.
 
-Lemma handle_from_idle_eq cfg s from bc bytes d frame_id :
-  handle_from_idle cfg s from bc bytes d frame_id =
-  match to_treq cfg from d with
-  | TqNone => (s, [])
-  | TqError seq => write_error_response s from bc seq
-  | TqRequest ctl fn obj =>
-      let seq := ctl_seq ctl in
-      match classify s bc bytes ctl fn obj with
-      | FtMalformed iin2 => hfi_finish cfg from seq bytes fn s (Some (empty_solicited seq iin2)) None false []
-      | FtNewRead _ _ | FtRepeatRead _ _ _ =>
-          let '(s1, r, se, o1) := format_first_read_response s seq in hfi_finish cfg from seq bytes fn s1 (Some r) se false o1
-      | FtNewNonRead hdrs =>
-          let '(s1, r, o1) := handle_non_read cfg s fn seq frame_id bytes hdrs in hfi_finish cfg from seq bytes fn s1 r None false o1
-      | FtRepeatNonRead last =>
-          let s1 := match s_select s with
-                    | Some sel => upd_select s (Some {| ss_seq := ss_seq sel; ss_frame_id := frame_id;
-                                                        ss_time := ss_time sel; ss_objects := ss_objects sel |})
-                    | None => s
-                    end in
-          hfi_finish cfg from seq bytes fn s1 last None true []
-      | FtBroadcast m =>
-          let '(s1, o1) := process_broadcast cfg s m frame_id ctl fn bytes obj in (s1, [OInfo (IIdleRequest fn seq)] ++ o1)
-      | FtSolConfirm _ | FtUnsolConfirm _ => (s, [OInfo (IIdleRequest fn seq)])
-      end
-  end.
+Lemma need_le_18 st s : (need st s <= 18)%nat.
 Proof.
-  unfold handle_from_idle. destruct (to_treq cfg from d) as [|sq|ctl fn obj]; try reflexivity.
-  cbv zeta. destruct (classify s bc bytes ctl fn obj).
-  all: try reflexivity.
-  all: idtac "FAIL".
-  all: unfold hfi_finish.
-  Show.
+  unfold need, tokens. destruct st as [| |ns|ns]; try destruct ns;
+    destruct (has (s_pending s)), (has (s_deferred s)), (s_notify s); cbn; lia.
+Qed.
+
+Section Pending.
+  Variable cfg : ocfg.
+
+  Lemma idle_run_J fuel : forall st s s' o,
+    (need st s <= fuel)%nat -> s_control s = CIdle -> stage_pre st s ->
+    idle_run fuel cfg st s = (s', o) -> J s'.
+  Proof.
+    induction fuel as [|f IH]; intros st s s' o Hn Hc Hp H.
+    { exfalso. destruct st; cbn in Hn; lia. }
+    cbn [idle_run] in H. destruct st as [| |ns|ns]; cbn [stage_pre] in Hp.
+    - (* St1 *)
+      destruct (match s_pending s with
+                | Some (from, bc, bytes, d, fid) => handle_from_idle cfg (upd_pending s None) from bc bytes d fid
+                | None => (s, [])
+                end) as [s1 o1] eqn:E1.
+      assert (H1 : s_pending s1 = None /\ s_deferred s1 = None /\ s_notify s1 = s_notify s /\
+                   (s_control s1 = CIdle \/ exists x dl, s_control s1 = CSolWait x dl RStep2)).
+      { destruct (s_pending s) as [[[[[from bc] bytes] d] fid]|] eqn:Epen.
+        - apply handle_from_idle_frame in E1. destruct E1 as [A B].
+          destruct A as (_ & _ & _ & A4 & _ & A6 & _ & A8 & _). cbn in A4, A6, A8.
+          split; [exact A6|]. split; [congruence|]. split; [exact A8|].
+          destruct B as [B|[x B]]; [left; cbn in B; congruence|right; eauto].
+        - inversion E1; subst. auto. }
+      destruct H1 as (P1 & P2 & P3 & P4).
+      destruct (s_control s1) as [|se dl r|resp is_null retries dl] eqn:Ec1.
+      + destruct (idle_run f cfg St2 s1) as [s2 o2] eqn:E2. inversion H; subst.
+        eapply IH; [|exact Ec1| |exact E2].
+        * unfold need, tokens in *. rewrite P1, P2, P3. rewrite Hp in Hn. cbn [has b2nat] in *. lia.
+        * exact P2.
+      + inversion H; subst. split; [exact P1|]. intros _. exact P2.
+      + exfalso. destruct P4 as [P4|(x & dl' & P4)]; discriminate.
+    - (* St2 *)
+      destruct (check_unsolicited cfg s) as [[s2 ns] o2] eqn:E2.
+      apply check_unsolicited_frame in E2. destruct E2 as (_ & A & B).
+      destruct A as (_ & _ & _ & A4 & A5 & _ & A7 & _).
+      destruct (s_control s2) as [|se dl r|resp is_null retries dl] eqn:Ec2.
+      + destruct (idle_run f cfg (St3 false) s2) as [s3 o3] eqn:E3. inversion H; subst.
+        eapply IH; [|exact Ec2| |exact E3].
+        * unfold need, tokens in *. rewrite A4, A5, A7. cbn [b2nat]. lia.
+        * right. congruence.
+      + exfalso. destruct B as [B|(r1 & n1 & k1 & d1 & B)]; congruence.
+      + destruct (s_pending s2) as [[[[[from bc] bytes] d] fid]|] eqn:Epen.
+        2:{ inversion H; subst. split; [exact Epen|]. rewrite Ec2. discriminate. }
+        destruct (unsol_wait_fragment cfg (upd_pending s2 None) resp from bc bytes d fid) as [[s3 res] o3] eqn:E3.
+        apply unsol_wait_fragment_frame in E3. destruct E3 as [C D].
+        destruct C as (_ & C2 & _ & _ & _ & C6 & _ & C8 & _). cbn in C2, C6, C8.
+        destruct res as [r|].
+        2:{ inversion H; subst. split; [exact C6|]. rewrite C2, Ec2. discriminate. }
+        assert (Hd3 : s_deferred s3 = None).
+        { destruct D as [D|D]; [discriminate| |exact D]. cbn in D. congruence. }
+        destruct (end_unsol cfg s3 is_null r) as [[s4 ns4] o4] eqn:E4.
+        apply end_unsol_frame in E4. destruct E4 as (F1 & _ & F3 & F4 & F5 & _).
+        destruct (idle_run f cfg (St3 ns4) s4) as [s5 o5] eqn:E5. inversion H; subst.
+        eapply IH; [|exact F1| |exact E5].
+        * unfold need, tokens in *. rewrite F3, F4, F5, Hd3, C6, C8, A7.
+          rewrite <- A5 in Hn. cbn [has b2nat] in *.
+          destruct ns4; cbn [b2nat]; lia.
+        * left. congruence.
+    - (* St3 *)
+      destruct (s_deferred s) as [d|] eqn:Ed.
+      + destruct Hp as [Hp|Hp]; [|discriminate].
+        destruct (handle_deferred cfg s ns) as [s3 o3] eqn:E3.
+        eapply handle_deferred_some in E3; [|exact Ed].
+        destruct E3 as (s3' & r & r' & pre & post & se' & _ & _ & _ & _ & _ & _ & _ & _ & G1 & G2 & G3 & _ & _ & _ & _ & _ & _ & G4).
+        destruct (s_control s3) as [|se dl r0|resp is_null retries dl] eqn:Ec3.
+        * destruct (idle_run f cfg (St4 ns) s3) as [s4 o4] eqn:E4. inversion H; subst.
+          eapply IH; [|exact Ec3| |exact E4].
+          -- unfold need, tokens in *. rewrite G1, G2, G3, Hp. rewrite Hp in Hn. cbn [has b2nat] in *.
+             
+Show.
 Abort.
+End Pending.
